@@ -18,509 +18,626 @@ package keeper
 // ---------------------------------------------------------------------------------------------
 
 //@ func (e erc20CustomPrecompiledContractRoName) ReadOnly() bool
+//@   deterministic[C01.no_node_local_source]
 //@   modifies nothing
 //@   ensures[C12.read_only_flag] result == true
 //@   panics never
 //@ func (e erc20CustomPrecompiledContractRoName) RequireGas() uint64
+//@   deterministic[C01.no_node_local_source]
 //@   modifies nothing
 //@   ensures[C12.gas_constant] result == 0
 //@   panics never
 //@ func (e erc20CustomPrecompiledContractRoName) Method4BytesSignatures() []byte
+//@   deterministic[C01.no_node_local_source]
 //@   modifies nothing
 //@   ensures[C12.selector] len(result) == 4 && result[0] == 6 && result[1] == 253 && result[2] == 222 && result[3] == 3
 //@   panics never
 
 //@ func (e erc20CustomPrecompiledContractRoSymbol) ReadOnly() bool
+//@   deterministic[C01.no_node_local_source]
 //@   modifies nothing
 //@   ensures[C12.read_only_flag] result == true
 //@   panics never
 //@ func (e erc20CustomPrecompiledContractRoSymbol) RequireGas() uint64
+//@   deterministic[C01.no_node_local_source]
 //@   modifies nothing
 //@   ensures[C12.gas_constant] result == 0
 //@   panics never
 //@ func (e erc20CustomPrecompiledContractRoSymbol) Method4BytesSignatures() []byte
+//@   deterministic[C01.no_node_local_source]
 //@   modifies nothing
 //@   ensures[C12.selector] len(result) == 4 && result[0] == 149 && result[1] == 216 && result[2] == 155 && result[3] == 65
 //@   panics never
 
 //@ func (e erc20CustomPrecompiledContractRoDecimals) ReadOnly() bool
+//@   deterministic[C01.no_node_local_source]
 //@   modifies nothing
 //@   ensures[C12.read_only_flag] result == true
 //@   panics never
 //@ func (e erc20CustomPrecompiledContractRoDecimals) RequireGas() uint64
+//@   deterministic[C01.no_node_local_source]
 //@   modifies nothing
 //@   ensures[C12.gas_constant] result == 0
 //@   panics never
 //@ func (e erc20CustomPrecompiledContractRoDecimals) Method4BytesSignatures() []byte
+//@   deterministic[C01.no_node_local_source]
 //@   modifies nothing
 //@   ensures[C12.selector] len(result) == 4 && result[0] == 49 && result[1] == 60 && result[2] == 229 && result[3] == 103
 //@   panics never
 
 //@ func (e erc20CustomPrecompiledContractRoTotalSupply) ReadOnly() bool
+//@   deterministic[C01.no_node_local_source]
 //@   modifies nothing
 //@   ensures[C12.read_only_flag] result == true
 //@   panics never
 //@ func (e erc20CustomPrecompiledContractRoTotalSupply) RequireGas() uint64
+//@   deterministic[C01.no_node_local_source]
 //@   modifies nothing
 //@   ensures[C12.gas_constant] result == 1000
 //@   panics never
 //@ func (e erc20CustomPrecompiledContractRoTotalSupply) Method4BytesSignatures() []byte
+//@   deterministic[C01.no_node_local_source]
 //@   modifies nothing
 //@   ensures[C12.selector] len(result) == 4 && result[0] == 24 && result[1] == 22 && result[2] == 13 && result[3] == 221
 //@   panics never
 
 //@ func (e erc20CustomPrecompiledContractRoBalanceOf) ReadOnly() bool
+//@   deterministic[C01.no_node_local_source]
 //@   modifies nothing
 //@   ensures[C12.read_only_flag] result == true
 //@   panics never
 //@ func (e erc20CustomPrecompiledContractRoBalanceOf) RequireGas() uint64
+//@   deterministic[C01.no_node_local_source]
 //@   modifies nothing
 //@   ensures[C12.gas_constant] result == 1000
 //@   panics never
 //@ func (e erc20CustomPrecompiledContractRoBalanceOf) Method4BytesSignatures() []byte
+//@   deterministic[C01.no_node_local_source]
 //@   modifies nothing
 //@   ensures[C12.selector] len(result) == 4 && result[0] == 112 && result[1] == 160 && result[2] == 130 && result[3] == 49
 //@   panics never
 
 //@ func (e erc20CustomPrecompiledContractRwTransferFrom) ReadOnly() bool
+//@   deterministic[C01.no_node_local_source]
 //@   modifies nothing
 //@   ensures[C12.read_only_flag] result == false
 //@   panics never
 //@ func (e erc20CustomPrecompiledContractRwTransferFrom) RequireGas() uint64
+//@   deterministic[C01.no_node_local_source]
 //@   modifies nothing
 //@   ensures[C12.gas_constant] result == 15000
 //@   panics never
 //@ func (e erc20CustomPrecompiledContractRwTransferFrom) Method4BytesSignatures() []byte
+//@   deterministic[C01.no_node_local_source]
 //@   modifies nothing
 //@   ensures[C12.selector] len(result) == 4 && result[0] == 35 && result[1] == 184 && result[2] == 114 && result[3] == 221
 //@   panics never
 
 //@ func (e erc20CustomPrecompiledContractRwTransfer) ReadOnly() bool
+//@   deterministic[C01.no_node_local_source]
 //@   modifies nothing
 //@   ensures[C12.read_only_flag] result == false
 //@   panics never
 //@ func (e erc20CustomPrecompiledContractRwTransfer) RequireGas() uint64
+//@   deterministic[C01.no_node_local_source]
 //@   modifies nothing
 //@   ensures[C12.gas_constant] result == 15000
 //@   panics never
 //@ func (e erc20CustomPrecompiledContractRwTransfer) Method4BytesSignatures() []byte
+//@   deterministic[C01.no_node_local_source]
 //@   modifies nothing
 //@   ensures[C12.selector] len(result) == 4 && result[0] == 169 && result[1] == 5 && result[2] == 156 && result[3] == 187
 //@   panics never
 
 //@ func (e erc20CustomPrecompiledContractRwApprove) ReadOnly() bool
+//@   deterministic[C01.no_node_local_source]
 //@   modifies nothing
 //@   ensures[C12.read_only_flag] result == false
 //@   panics never
 //@ func (e erc20CustomPrecompiledContractRwApprove) RequireGas() uint64
+//@   deterministic[C01.no_node_local_source]
 //@   modifies nothing
 //@   ensures[C12.gas_constant] result == 30000
 //@   panics never
 //@ func (e erc20CustomPrecompiledContractRwApprove) Method4BytesSignatures() []byte
+//@   deterministic[C01.no_node_local_source]
 //@   modifies nothing
 //@   ensures[C12.selector] len(result) == 4 && result[0] == 9 && result[1] == 94 && result[2] == 167 && result[3] == 179
 //@   panics never
 
 //@ func (e erc20CustomPrecompiledContractRoAllowance) ReadOnly() bool
+//@   deterministic[C01.no_node_local_source]
 //@   modifies nothing
 //@   ensures[C12.read_only_flag] result == true
 //@   panics never
 //@ func (e erc20CustomPrecompiledContractRoAllowance) RequireGas() uint64
+//@   deterministic[C01.no_node_local_source]
 //@   modifies nothing
 //@   ensures[C12.gas_constant] result == 1000
 //@   panics never
 //@ func (e erc20CustomPrecompiledContractRoAllowance) Method4BytesSignatures() []byte
+//@   deterministic[C01.no_node_local_source]
 //@   modifies nothing
 //@   ensures[C12.selector] len(result) == 4 && result[0] == 221 && result[1] == 98 && result[2] == 237 && result[3] == 62
 //@   panics never
 
 //@ func (e erc20CustomPrecompiledContractRwBurnFrom) ReadOnly() bool
+//@   deterministic[C01.no_node_local_source]
 //@   modifies nothing
 //@   ensures[C12.read_only_flag] result == false
 //@   panics never
 //@ func (e erc20CustomPrecompiledContractRwBurnFrom) RequireGas() uint64
+//@   deterministic[C01.no_node_local_source]
 //@   modifies nothing
 //@   ensures[C12.gas_constant] result == 15000
 //@   panics never
 //@ func (e erc20CustomPrecompiledContractRwBurnFrom) Method4BytesSignatures() []byte
+//@   deterministic[C01.no_node_local_source]
 //@   modifies nothing
 //@   ensures[C12.selector] len(result) == 4 && result[0] == 121 && result[1] == 204 && result[2] == 103 && result[3] == 144
 //@   panics never
 
 //@ func (e erc20CustomPrecompiledContractRwBurn) ReadOnly() bool
+//@   deterministic[C01.no_node_local_source]
 //@   modifies nothing
 //@   ensures[C12.read_only_flag] result == false
 //@   panics never
 //@ func (e erc20CustomPrecompiledContractRwBurn) RequireGas() uint64
+//@   deterministic[C01.no_node_local_source]
 //@   modifies nothing
 //@   ensures[C12.gas_constant] result == 15000
 //@   panics never
 //@ func (e erc20CustomPrecompiledContractRwBurn) Method4BytesSignatures() []byte
+//@   deterministic[C01.no_node_local_source]
 //@   modifies nothing
 //@   ensures[C12.selector] len(result) == 4 && result[0] == 66 && result[1] == 150 && result[2] == 108 && result[3] == 104
 //@   panics never
 
 //@ func (e stakingCustomPrecompiledContractRoName) ReadOnly() bool
+//@   deterministic[C01.no_node_local_source]
 //@   modifies nothing
 //@   ensures[C12.read_only_flag] result == true
 //@   panics never
 //@ func (e stakingCustomPrecompiledContractRoName) RequireGas() uint64
+//@   deterministic[C01.no_node_local_source]
 //@   modifies nothing
 //@   ensures[C12.gas_constant] result == 0
 //@   panics never
 //@ func (e stakingCustomPrecompiledContractRoName) Method4BytesSignatures() []byte
+//@   deterministic[C01.no_node_local_source]
 //@   modifies nothing
 //@   ensures[C12.selector] len(result) == 4 && result[0] == 6 && result[1] == 253 && result[2] == 222 && result[3] == 3
 //@   panics never
 
 //@ func (e stakingCustomPrecompiledContractRoSymbol) ReadOnly() bool
+//@   deterministic[C01.no_node_local_source]
 //@   modifies nothing
 //@   ensures[C12.read_only_flag] result == true
 //@   panics never
 //@ func (e stakingCustomPrecompiledContractRoSymbol) RequireGas() uint64
+//@   deterministic[C01.no_node_local_source]
 //@   modifies nothing
 //@   ensures[C12.gas_constant] result == 0
 //@   panics never
 //@ func (e stakingCustomPrecompiledContractRoSymbol) Method4BytesSignatures() []byte
+//@   deterministic[C01.no_node_local_source]
 //@   modifies nothing
 //@   ensures[C12.selector] len(result) == 4 && result[0] == 149 && result[1] == 216 && result[2] == 155 && result[3] == 65
 //@   panics never
 
 //@ func (e stakingCustomPrecompiledContractRoDecimals) ReadOnly() bool
+//@   deterministic[C01.no_node_local_source]
 //@   modifies nothing
 //@   ensures[C12.read_only_flag] result == true
 //@   panics never
 //@ func (e stakingCustomPrecompiledContractRoDecimals) RequireGas() uint64
+//@   deterministic[C01.no_node_local_source]
 //@   modifies nothing
 //@   ensures[C12.gas_constant] result == 0
 //@   panics never
 //@ func (e stakingCustomPrecompiledContractRoDecimals) Method4BytesSignatures() []byte
+//@   deterministic[C01.no_node_local_source]
 //@   modifies nothing
 //@   ensures[C12.selector] len(result) == 4 && result[0] == 49 && result[1] == 60 && result[2] == 229 && result[3] == 103
 //@   panics never
 
 //@ func (e stakingCustomPrecompiledContractRoDelegatedValidators) ReadOnly() bool
+//@   deterministic[C01.no_node_local_source]
 //@   modifies nothing
 //@   ensures[C12.read_only_flag] result == true
 //@   panics never
 //@ func (e stakingCustomPrecompiledContractRoDelegatedValidators) RequireGas() uint64
+//@   deterministic[C01.no_node_local_source]
 //@   modifies nothing
 //@   ensures[C12.gas_constant] result == 10000
 //@   panics never
 //@ func (e stakingCustomPrecompiledContractRoDelegatedValidators) Method4BytesSignatures() []byte
+//@   deterministic[C01.no_node_local_source]
 //@   modifies nothing
 //@   ensures[C12.selector] len(result) == 4 && result[0] == 95 && result[1] == 219 && result[2] == 85 && result[3] == 13
 //@   panics never
 
 //@ func (e stakingCustomPrecompiledContractRoDelegationOf) ReadOnly() bool
+//@   deterministic[C01.no_node_local_source]
 //@   modifies nothing
 //@   ensures[C12.read_only_flag] result == true
 //@   panics never
 //@ func (e stakingCustomPrecompiledContractRoDelegationOf) RequireGas() uint64
+//@   deterministic[C01.no_node_local_source]
 //@   modifies nothing
 //@   ensures[C12.gas_constant] result == 10000
 //@   panics never
 //@ func (e stakingCustomPrecompiledContractRoDelegationOf) Method4BytesSignatures() []byte
+//@   deterministic[C01.no_node_local_source]
 //@   modifies nothing
 //@   ensures[C12.selector] len(result) == 4 && result[0] == 98 && result[1] == 141 && result[2] == 165 && result[3] == 39
 //@   panics never
 
 //@ func (e stakingCustomPrecompiledContractRoTotalDelegationOf) ReadOnly() bool
+//@   deterministic[C01.no_node_local_source]
 //@   modifies nothing
 //@   ensures[C12.read_only_flag] result == true
 //@   panics never
 //@ func (e stakingCustomPrecompiledContractRoTotalDelegationOf) RequireGas() uint64
+//@   deterministic[C01.no_node_local_source]
 //@   modifies nothing
 //@   ensures[C12.gas_constant] result == 10000
 //@   panics never
 //@ func (e stakingCustomPrecompiledContractRoTotalDelegationOf) Method4BytesSignatures() []byte
+//@   deterministic[C01.no_node_local_source]
 //@   modifies nothing
 //@   ensures[C12.selector] len(result) == 4 && result[0] == 162 && result[1] == 185 && result[2] == 21 && result[3] == 226
 //@   panics never
 
 //@ func (e stakingCustomPrecompiledContractRoRewardOf) ReadOnly() bool
+//@   deterministic[C01.no_node_local_source]
 //@   modifies nothing
 //@   ensures[C12.read_only_flag] result == true
 //@   panics never
 //@ func (e stakingCustomPrecompiledContractRoRewardOf) RequireGas() uint64
+//@   deterministic[C01.no_node_local_source]
 //@   modifies nothing
 //@   ensures[C12.gas_constant] result == 10000
 //@   panics never
 //@ func (e stakingCustomPrecompiledContractRoRewardOf) Method4BytesSignatures() []byte
+//@   deterministic[C01.no_node_local_source]
 //@   modifies nothing
 //@   ensures[C12.selector] len(result) == 4 && result[0] == 71 && result[1] == 50 && result[2] == 170 && result[3] == 29
 //@   panics never
 
 //@ func (e stakingCustomPrecompiledContractRoRewardsOf) ReadOnly() bool
+//@   deterministic[C01.no_node_local_source]
 //@   modifies nothing
 //@   ensures[C12.read_only_flag] result == true
 //@   panics never
 //@ func (e stakingCustomPrecompiledContractRoRewardsOf) RequireGas() uint64
+//@   deterministic[C01.no_node_local_source]
 //@   modifies nothing
 //@   ensures[C12.gas_constant] result == 20000
 //@   panics never
 //@ func (e stakingCustomPrecompiledContractRoRewardsOf) Method4BytesSignatures() []byte
+//@   deterministic[C01.no_node_local_source]
 //@   modifies nothing
 //@   ensures[C12.selector] len(result) == 4 && result[0] == 71 && result[1] == 155 && result[2] == 167 && result[3] == 174
 //@   panics never
 
 //@ func (e stakingCustomPrecompiledContractRwDelegate) ReadOnly() bool
+//@   deterministic[C01.no_node_local_source]
 //@   modifies nothing
 //@   ensures[C12.read_only_flag] result == false
 //@   panics never
 //@ func (e stakingCustomPrecompiledContractRwDelegate) RequireGas() uint64
+//@   deterministic[C01.no_node_local_source]
 //@   modifies nothing
 //@   ensures[C12.gas_constant] result == 300000
 //@   panics never
 //@ func (e stakingCustomPrecompiledContractRwDelegate) Method4BytesSignatures() []byte
+//@   deterministic[C01.no_node_local_source]
 //@   modifies nothing
 //@   ensures[C12.selector] len(result) == 4 && result[0] == 2 && result[1] == 110 && result[2] == 64 && result[3] == 43
 //@   panics never
 
 //@ func (e stakingCustomPrecompiledContractRwUnDelegate) ReadOnly() bool
+//@   deterministic[C01.no_node_local_source]
 //@   modifies nothing
 //@   ensures[C12.read_only_flag] result == false
 //@   panics never
 //@ func (e stakingCustomPrecompiledContractRwUnDelegate) RequireGas() uint64
+//@   deterministic[C01.no_node_local_source]
 //@   modifies nothing
 //@   ensures[C12.gas_constant] result == 200000
 //@   panics never
 //@ func (e stakingCustomPrecompiledContractRwUnDelegate) Method4BytesSignatures() []byte
+//@   deterministic[C01.no_node_local_source]
 //@   modifies nothing
 //@   ensures[C12.selector] len(result) == 4 && result[0] == 77 && result[1] == 153 && result[2] == 221 && result[3] == 22
 //@   panics never
 
 //@ func (e stakingCustomPrecompiledContractRwReDelegate) ReadOnly() bool
+//@   deterministic[C01.no_node_local_source]
 //@   modifies nothing
 //@   ensures[C12.read_only_flag] result == false
 //@   panics never
 //@ func (e stakingCustomPrecompiledContractRwReDelegate) RequireGas() uint64
+//@   deterministic[C01.no_node_local_source]
 //@   modifies nothing
 //@   ensures[C12.gas_constant] result == 500000
 //@   panics never
 //@ func (e stakingCustomPrecompiledContractRwReDelegate) Method4BytesSignatures() []byte
+//@   deterministic[C01.no_node_local_source]
 //@   modifies nothing
 //@   ensures[C12.selector] len(result) == 4 && result[0] == 107 && result[1] == 216 && result[2] == 248 && result[3] == 4
 //@   panics never
 
 //@ func (e stakingCustomPrecompiledContractRwDelegateByActionMessage) ReadOnly() bool
+//@   deterministic[C01.no_node_local_source]
 //@   modifies nothing
 //@   ensures[C12.read_only_flag] result == false
 //@   panics never
 //@ func (e stakingCustomPrecompiledContractRwDelegateByActionMessage) RequireGas() uint64
+//@   deterministic[C01.no_node_local_source]
 //@   modifies nothing
 //@   ensures[C12.gas_constant] result == 700000
 //@   panics never
 //@ func (e stakingCustomPrecompiledContractRwDelegateByActionMessage) Method4BytesSignatures() []byte
+//@   deterministic[C01.no_node_local_source]
 //@   modifies nothing
 //@   ensures[C12.selector] len(result) == 4 && result[0] == 215 && result[1] == 61 && result[2] == 132 && result[3] == 27
 //@   panics never
 
 //@ func (e stakingCustomPrecompiledContractRwWithdrawReward) ReadOnly() bool
+//@   deterministic[C01.no_node_local_source]
 //@   modifies nothing
 //@   ensures[C12.read_only_flag] result == false
 //@   panics never
 //@ func (e stakingCustomPrecompiledContractRwWithdrawReward) RequireGas() uint64
+//@   deterministic[C01.no_node_local_source]
 //@   modifies nothing
 //@   ensures[C12.gas_constant] result == 200000
 //@   panics never
 //@ func (e stakingCustomPrecompiledContractRwWithdrawReward) Method4BytesSignatures() []byte
+//@   deterministic[C01.no_node_local_source]
 //@   modifies nothing
 //@   ensures[C12.selector] len(result) == 4 && result[0] == 184 && result[1] == 110 && result[2] == 50 && result[3] == 28
 //@   panics never
 
 //@ func (e stakingCustomPrecompiledContractRwWithdrawRewards) ReadOnly() bool
+//@   deterministic[C01.no_node_local_source]
 //@   modifies nothing
 //@   ensures[C12.read_only_flag] result == false
 //@   panics never
 //@ func (e stakingCustomPrecompiledContractRwWithdrawRewards) RequireGas() uint64
+//@   deterministic[C01.no_node_local_source]
 //@   modifies nothing
 //@   ensures[C12.gas_constant] result == 400000
 //@   panics never
 //@ func (e stakingCustomPrecompiledContractRwWithdrawRewards) Method4BytesSignatures() []byte
+//@   deterministic[C01.no_node_local_source]
 //@   modifies nothing
 //@   ensures[C12.selector] len(result) == 4 && result[0] == 199 && result[1] == 184 && result[2] == 152 && result[3] == 28
 //@   panics never
 
 //@ func (e stakingCustomPrecompiledContractRwWithdrawRewardsByMessage) ReadOnly() bool
+//@   deterministic[C01.no_node_local_source]
 //@   modifies nothing
 //@   ensures[C12.read_only_flag] result == false
 //@   panics never
 //@ func (e stakingCustomPrecompiledContractRwWithdrawRewardsByMessage) RequireGas() uint64
+//@   deterministic[C01.no_node_local_source]
 //@   modifies nothing
 //@   ensures[C12.gas_constant] result == 400000
 //@   panics never
 //@ func (e stakingCustomPrecompiledContractRwWithdrawRewardsByMessage) Method4BytesSignatures() []byte
+//@   deterministic[C01.no_node_local_source]
 //@   modifies nothing
 //@   ensures[C12.selector] len(result) == 4 && result[0] == 75 && result[1] == 215 && result[2] == 1 && result[3] == 117
 //@   panics never
 
 //@ func (e stakingCustomPrecompiledContractRoBalanceOf) ReadOnly() bool
+//@   deterministic[C01.no_node_local_source]
 //@   modifies nothing
 //@   ensures[C12.read_only_flag] result == true
 //@   panics never
 //@ func (e stakingCustomPrecompiledContractRoBalanceOf) RequireGas() uint64
+//@   deterministic[C01.no_node_local_source]
 //@   modifies nothing
 //@   ensures[C12.gas_constant] result == 20000
 //@   panics never
 //@ func (e stakingCustomPrecompiledContractRoBalanceOf) Method4BytesSignatures() []byte
+//@   deterministic[C01.no_node_local_source]
 //@   modifies nothing
 //@   ensures[C12.selector] len(result) == 4 && result[0] == 112 && result[1] == 160 && result[2] == 130 && result[3] == 49
 //@   panics never
 
 //@ func (e stakingCustomPrecompiledContractRwTransfer) ReadOnly() bool
+//@   deterministic[C01.no_node_local_source]
 //@   modifies nothing
 //@   ensures[C12.read_only_flag] result == false
 //@   panics never
 //@ func (e stakingCustomPrecompiledContractRwTransfer) RequireGas() uint64
+//@   deterministic[C01.no_node_local_source]
 //@   modifies nothing
 //@   ensures[C12.gas_constant] result == 800000
 //@   panics never
 //@ func (e stakingCustomPrecompiledContractRwTransfer) Method4BytesSignatures() []byte
+//@   deterministic[C01.no_node_local_source]
 //@   modifies nothing
 //@   ensures[C12.selector] len(result) == 4 && result[0] == 169 && result[1] == 5 && result[2] == 156 && result[3] == 187
 //@   panics never
 
 //@ func (e bech32CustomPrecompiledContractRoEncodeAddress) ReadOnly() bool
+//@   deterministic[C01.no_node_local_source]
 //@   modifies nothing
 //@   ensures[C12.read_only_flag] result == true
 //@   panics never
 //@ func (e bech32CustomPrecompiledContractRoEncodeAddress) RequireGas() uint64
+//@   deterministic[C01.no_node_local_source]
 //@   modifies nothing
 //@   ensures[C12.gas_constant] result == 30000
 //@   panics never
 //@ func (e bech32CustomPrecompiledContractRoEncodeAddress) Method4BytesSignatures() []byte
+//@   deterministic[C01.no_node_local_source]
 //@   modifies nothing
 //@   ensures[C12.selector] len(result) == 4 && result[0] == 179 && result[1] == 97 && result[2] == 207 && result[3] == 239
 //@   panics never
 
 //@ func (e bech32CustomPrecompiledContractRoEncode32BytesAddress) ReadOnly() bool
+//@   deterministic[C01.no_node_local_source]
 //@   modifies nothing
 //@   ensures[C12.read_only_flag] result == true
 //@   panics never
 //@ func (e bech32CustomPrecompiledContractRoEncode32BytesAddress) RequireGas() uint64
+//@   deterministic[C01.no_node_local_source]
 //@   modifies nothing
 //@   ensures[C12.gas_constant] result == 60000
 //@   panics never
 //@ func (e bech32CustomPrecompiledContractRoEncode32BytesAddress) Method4BytesSignatures() []byte
+//@   deterministic[C01.no_node_local_source]
 //@   modifies nothing
 //@   ensures[C12.selector] len(result) == 4 && result[0] == 169 && result[1] == 75 && result[2] == 132 && result[3] == 179
 //@   panics never
 
 //@ func (e bech32CustomPrecompiledContractRoEncodeBytes) ReadOnly() bool
+//@   deterministic[C01.no_node_local_source]
 //@   modifies nothing
 //@   ensures[C12.read_only_flag] result == true
 //@   panics never
 //@ func (e bech32CustomPrecompiledContractRoEncodeBytes) RequireGas() uint64
+//@   deterministic[C01.no_node_local_source]
 //@   modifies nothing
 //@   ensures[C12.gas_constant] result == 200000
 //@   panics never
 //@ func (e bech32CustomPrecompiledContractRoEncodeBytes) Method4BytesSignatures() []byte
+//@   deterministic[C01.no_node_local_source]
 //@   modifies nothing
 //@   ensures[C12.selector] len(result) == 4 && result[0] == 246 && result[1] == 224 && result[2] == 213 && result[3] == 3
 //@   panics never
 
 //@ func (e bech32CustomPrecompiledContractRoDecode) ReadOnly() bool
+//@   deterministic[C01.no_node_local_source]
 //@   modifies nothing
 //@   ensures[C12.read_only_flag] result == true
 //@   panics never
 //@ func (e bech32CustomPrecompiledContractRoDecode) RequireGas() uint64
+//@   deterministic[C01.no_node_local_source]
 //@   modifies nothing
 //@   ensures[C12.gas_constant] result == 200000
 //@   panics never
 //@ func (e bech32CustomPrecompiledContractRoDecode) Method4BytesSignatures() []byte
+//@   deterministic[C01.no_node_local_source]
 //@   modifies nothing
 //@   ensures[C12.selector] len(result) == 4 && result[0] == 188 && result[1] == 66 && result[2] == 83 && result[3] == 127
 //@   panics never
 
 //@ func (e bech32CustomPrecompiledContractRoAccountAddrPrefix) ReadOnly() bool
+//@   deterministic[C01.no_node_local_source]
 //@   modifies nothing
 //@   ensures[C12.read_only_flag] result == true
 //@   panics never
 //@ func (e bech32CustomPrecompiledContractRoAccountAddrPrefix) RequireGas() uint64
+//@   deterministic[C01.no_node_local_source]
 //@   modifies nothing
 //@   ensures[C12.gas_constant] result == 5000
 //@   panics never
 //@ func (e bech32CustomPrecompiledContractRoAccountAddrPrefix) Method4BytesSignatures() []byte
+//@   deterministic[C01.no_node_local_source]
 //@   modifies nothing
 //@   ensures[C12.selector] len(result) == 4 && result[0] == 150 && result[1] == 68 && result[2] == 59 && result[3] == 22
 //@   panics never
 
 //@ func (e bech32CustomPrecompiledContractRoValidatorAddrPrefix) ReadOnly() bool
+//@   deterministic[C01.no_node_local_source]
 //@   modifies nothing
 //@   ensures[C12.read_only_flag] result == true
 //@   panics never
 //@ func (e bech32CustomPrecompiledContractRoValidatorAddrPrefix) RequireGas() uint64
+//@   deterministic[C01.no_node_local_source]
 //@   modifies nothing
 //@   ensures[C12.gas_constant] result == 5000
 //@   panics never
 //@ func (e bech32CustomPrecompiledContractRoValidatorAddrPrefix) Method4BytesSignatures() []byte
+//@   deterministic[C01.no_node_local_source]
 //@   modifies nothing
 //@   ensures[C12.selector] len(result) == 4 && result[0] == 128 && result[1] == 54 && result[2] == 178 && result[3] == 37
 //@   panics never
 
 //@ func (e bech32CustomPrecompiledContractRoConsensusAddrPrefix) ReadOnly() bool
+//@   deterministic[C01.no_node_local_source]
 //@   modifies nothing
 //@   ensures[C12.read_only_flag] result == true
 //@   panics never
 //@ func (e bech32CustomPrecompiledContractRoConsensusAddrPrefix) RequireGas() uint64
+//@   deterministic[C01.no_node_local_source]
 //@   modifies nothing
 //@   ensures[C12.gas_constant] result == 5000
 //@   panics never
 //@ func (e bech32CustomPrecompiledContractRoConsensusAddrPrefix) Method4BytesSignatures() []byte
+//@   deterministic[C01.no_node_local_source]
 //@   modifies nothing
 //@   ensures[C12.selector] len(result) == 4 && result[0] == 136 && result[1] == 51 && result[2] == 61 && result[3] == 230
 //@   panics never
 
 //@ func (e bech32CustomPrecompiledContractRoAccountPubPrefix) ReadOnly() bool
+//@   deterministic[C01.no_node_local_source]
 //@   modifies nothing
 //@   ensures[C12.read_only_flag] result == true
 //@   panics never
 //@ func (e bech32CustomPrecompiledContractRoAccountPubPrefix) RequireGas() uint64
+//@   deterministic[C01.no_node_local_source]
 //@   modifies nothing
 //@   ensures[C12.gas_constant] result == 5000
 //@   panics never
 //@ func (e bech32CustomPrecompiledContractRoAccountPubPrefix) Method4BytesSignatures() []byte
+//@   deterministic[C01.no_node_local_source]
 //@   modifies nothing
 //@   ensures[C12.selector] len(result) == 4 && result[0] == 118 && result[1] == 92 && result[2] == 157 && result[3] == 146
 //@   panics never
 
 //@ func (e bech32CustomPrecompiledContractRoValidatorPubPrefix) ReadOnly() bool
+//@   deterministic[C01.no_node_local_source]
 //@   modifies nothing
 //@   ensures[C12.read_only_flag] result == true
 //@   panics never
 //@ func (e bech32CustomPrecompiledContractRoValidatorPubPrefix) RequireGas() uint64
+//@   deterministic[C01.no_node_local_source]
 //@   modifies nothing
 //@   ensures[C12.gas_constant] result == 5000
 //@   panics never
 //@ func (e bech32CustomPrecompiledContractRoValidatorPubPrefix) Method4BytesSignatures() []byte
+//@   deterministic[C01.no_node_local_source]
 //@   modifies nothing
 //@   ensures[C12.selector] len(result) == 4 && result[0] == 115 && result[1] == 116 && result[2] == 203 && result[3] == 145
 //@   panics never
 
 //@ func (e bech32CustomPrecompiledContractRoConsensusPubPrefix) ReadOnly() bool
+//@   deterministic[C01.no_node_local_source]
 //@   modifies nothing
 //@   ensures[C12.read_only_flag] result == true
 //@   panics never
 //@ func (e bech32CustomPrecompiledContractRoConsensusPubPrefix) RequireGas() uint64
+//@   deterministic[C01.no_node_local_source]
 //@   modifies nothing
 //@   ensures[C12.gas_constant] result == 5000
 //@   panics never
 //@ func (e bech32CustomPrecompiledContractRoConsensusPubPrefix) Method4BytesSignatures() []byte
+//@   deterministic[C01.no_node_local_source]
 //@   modifies nothing
 //@   ensures[C12.selector] len(result) == 4 && result[0] == 42 && result[1] == 153 && result[2] == 195 && result[3] == 66
 //@   panics never
 
 // the stub for methods that a protocol version does not support: read-only as configured; a non-read-only stub costs gas
 //@ func (n notSupportedCustomPrecompiledContractMethodExecutor) ReadOnly() bool
+//@   deterministic[C01.no_node_local_source]
 //@   modifies nothing
 //@   ensures[C12.read_only_flag] result == n.readOnly
 //@   panics never
 //@ func (n notSupportedCustomPrecompiledContractMethodExecutor) RequireGas() uint64
+//@   deterministic[C01.no_node_local_source]
 //@   modifies nothing
 //@   ensures[C12.gas_constant] result == (n.readOnly ? 0 : 2) && (!n.readOnly ==> result > 0)
 //@   panics never
 //@ func (n notSupportedCustomPrecompiledContractMethodExecutor) Execute(caller corevm.ContractRef, contractAddress common.Address, input []byte, env cpcExecutorEnv) (ret []byte, err error)
+//@   deterministic[C01.no_node_local_source]
 //@   modifies nothing
 //@   ensures[C12.stub_never_succeeds] err != nil
 //@   panics never
@@ -531,6 +648,7 @@ package keeper
 // ---------------------------------------------------------------------------------------------
 
 //@ func (k Keeper) GetErc20CpcAllowance(ctx sdk.Context, owner, spender common.Address) *big.Int
+//@   deterministic[C01.no_node_local_source]
 //@   requires k.storeKey != nil
 //@   modifies nothing
 //@   ensures[C10.allow_get] result != nil && fresh(result) && bigval[result] == cpcAllow(kvHas[kvId(layer(ctx), payload(k.storeKey))], kvVal[kvId(layer(ctx), payload(k.storeKey))], owner, spender)
@@ -538,6 +656,7 @@ package keeper
 
 // Sets exactly one entry: the store is unchanged except at the key of (owner, spender); a zero allowance deletes the entry.
 //@ func (k Keeper) SetErc20CpcAllowance(ctx sdk.Context, owner, spender common.Address, allowance *big.Int)
+//@   deterministic[C01.no_node_local_source]
 //@   requires k.storeKey != nil && allowance != nil
 //@   modifies kvHas[kvId(layer(ctx), payload(k.storeKey))], kvVal[kvId(layer(ctx), payload(k.storeKey))]
 //@   ensures[C10.allow_set] cpcAllow(kvHas[kvId(layer(ctx), payload(k.storeKey))], kvVal[kvId(layer(ctx), payload(k.storeKey))], owner, spender) == bigval[allowance]
@@ -555,6 +674,7 @@ package keeper
 // (established by NewErc20CustomPrecompiledContract: cache == nil; preserved by every method): a cached record is the
 // decoded one.
 //@ func (m *erc20CustomPrecompiledContract) GetErc20Metadata() (meta cpctypes.Erc20CustomPrecompiledContractMeta)
+//@   deterministic[C01.no_node_local_source]
 //@   requires m != nil
 //@   requires (m.cacheErc20Metadata != nil ==> (m.cacheErc20Metadata.MinDenom == erc20Denom(m.metadata.TypedMeta) && m.cacheErc20Metadata.Symbol == jsonErc20Symbol(strBytes(m.metadata.TypedMeta)) && m.cacheErc20Metadata.Decimals == jsonErc20Decimals(strBytes(m.metadata.TypedMeta))))
 //@   modifies m.cacheErc20Metadata
@@ -565,6 +685,7 @@ package keeper
 // spendAllowance (C10): an unlimited allowance (2^256-1) is never decremented; any other is reduced by exactly the
 // amount or, when insufficient, the call fails with the table untouched. Nothing but the entry (owner, spender) changes.
 //@ func (e erc20CustomPrecompiledContractRwTransferFrom) spendAllowance(ctx sdk.Context, owner, spender common.Address, amount *big.Int) (err error)
+//@   deterministic[C01.no_node_local_source]
 //@   requires e.contract != nil && e.contract.keeper.storeKey != nil && amount != nil && bigval[amount] >= 0
 //@   modifies kvHas[kvId(layer(ctx), payload(e.contract.keeper.storeKey))], kvVal[kvId(layer(ctx), payload(e.contract.keeper.storeKey))]
 //@   ensures[C10.infinite_kept] old(cpcAllow(kvHas[kvId(layer(ctx), payload(e.contract.keeper.storeKey))], kvVal[kvId(layer(ctx), payload(e.contract.keeper.storeKey))], owner, spender)) == pow2(256) - 1 ==> (err == nil && (kvHas[kvId(layer(ctx), payload(e.contract.keeper.storeKey))] == old(kvHas[kvId(layer(ctx), payload(e.contract.keeper.storeKey))]) && kvVal[kvId(layer(ctx), payload(e.contract.keeper.storeKey))] == old(kvVal[kvId(layer(ctx), payload(e.contract.keeper.storeKey))])))
@@ -578,6 +699,7 @@ package keeper
 //  every other (address, denomination) is unchanged; exactly one Transfer log is appended; the allowance table is untouched
 //  (frame). A normal return with err == nil implies x <= balance(from).
 //@ func (e erc20CustomPrecompiledContractRwTransferFrom) transfer(ctx sdk.Context, from, to common.Address, amount *big.Int, contractAddr common.Address, stateDB corevm.StateDB) (ret []byte, err error)
+//@   deterministic[C01.no_node_local_source]
 //@   requires e.contract != nil && e.contract.keeper.bankKeeper != nil && stateDB != nil && amount != nil
 //@   requires (e.contract.cacheErc20Metadata != nil ==> (e.contract.cacheErc20Metadata.MinDenom == erc20Denom(e.contract.metadata.TypedMeta) && e.contract.cacheErc20Metadata.Symbol == jsonErc20Symbol(strBytes(e.contract.metadata.TypedMeta)) && e.contract.cacheErc20Metadata.Decimals == jsonErc20Decimals(strBytes(e.contract.metadata.TypedMeta))))
 //@   modifies e.contract.cacheErc20Metadata, bankBal[layer(ctx)], bankSupply[layer(ctx)], authVersion[layer(ctx)], evlog[payload(ctx.EventManager())], sdbLogCount[payload(stateDB)], sdbLogAddr[payload(stateDB)], sdbLogNTopics[payload(stateDB)], sdbLogT0[payload(stateDB)], sdbLogT1[payload(stateDB)], sdbLogT2[payload(stateDB)], sdbLogT3[payload(stateDB)], sdbLogData[payload(stateDB)], sdbOther[payload(stateDB)]
@@ -601,6 +723,7 @@ package keeper
 // transferFrom(from, to, x): from and to are non-zero; the caller is from, or the allowance (from -> caller) is unlimited or
 // covers x and is reduced by exactly x; then the transfer law of `transfer`.
 //@ func (e erc20CustomPrecompiledContractRwTransferFrom) Execute(caller corevm.ContractRef, contractAddr common.Address, input []byte, env cpcExecutorEnv) (ret []byte, err error)
+//@   deterministic[C01.no_node_local_source]
 //@   requires caller != nil && env.evm != nil && env.evm.StateDB != nil && e.contract != nil && e.contract.keeper.storeKey != nil && e.contract.keeper.bankKeeper != nil
 //@   requires (e.contract.cacheErc20Metadata != nil ==> (e.contract.cacheErc20Metadata.MinDenom == erc20Denom(e.contract.metadata.TypedMeta) && e.contract.cacheErc20Metadata.Symbol == jsonErc20Symbol(strBytes(e.contract.metadata.TypedMeta)) && e.contract.cacheErc20Metadata.Decimals == jsonErc20Decimals(strBytes(e.contract.metadata.TypedMeta))))
 //@   modifies e.contract.cacheErc20Metadata, kvHas[kvId(layer(env.ctx), payload(e.contract.keeper.storeKey))], kvVal[kvId(layer(env.ctx), payload(e.contract.keeper.storeKey))], bankBal[layer(env.ctx)], bankSupply[layer(env.ctx)], authVersion[layer(env.ctx)], evlog[payload(env.ctx.EventManager())], sdbLogCount[payload(env.evm.StateDB)], sdbLogAddr[payload(env.evm.StateDB)], sdbLogNTopics[payload(env.evm.StateDB)], sdbLogT0[payload(env.evm.StateDB)], sdbLogT1[payload(env.evm.StateDB)], sdbLogT2[payload(env.evm.StateDB)], sdbLogT3[payload(env.evm.StateDB)], sdbLogData[payload(env.evm.StateDB)], sdbOther[payload(env.evm.StateDB)]
@@ -617,6 +740,7 @@ package keeper
 
 // transfer(to, x): moves the CALLER's coins only; the allowance table is untouched (frame).
 //@ func (e erc20CustomPrecompiledContractRwTransfer) Execute(caller corevm.ContractRef, contractAddr common.Address, input []byte, env cpcExecutorEnv) (ret []byte, err error)
+//@   deterministic[C01.no_node_local_source]
 //@   requires caller != nil && env.evm != nil && env.evm.StateDB != nil && e.transferFrom.contract != nil && e.transferFrom.contract.keeper.storeKey != nil && e.transferFrom.contract.keeper.bankKeeper != nil
 //@   requires (e.transferFrom.contract.cacheErc20Metadata != nil ==> (e.transferFrom.contract.cacheErc20Metadata.MinDenom == erc20Denom(e.transferFrom.contract.metadata.TypedMeta) && e.transferFrom.contract.cacheErc20Metadata.Symbol == jsonErc20Symbol(strBytes(e.transferFrom.contract.metadata.TypedMeta)) && e.transferFrom.contract.cacheErc20Metadata.Decimals == jsonErc20Decimals(strBytes(e.transferFrom.contract.metadata.TypedMeta))))
 //@   modifies e.transferFrom.contract.cacheErc20Metadata, bankBal[layer(env.ctx)], bankSupply[layer(env.ctx)], authVersion[layer(env.ctx)], evlog[payload(env.ctx.EventManager())], sdbLogCount[payload(env.evm.StateDB)], sdbLogAddr[payload(env.evm.StateDB)], sdbLogNTopics[payload(env.evm.StateDB)], sdbLogT0[payload(env.evm.StateDB)], sdbLogT1[payload(env.evm.StateDB)], sdbLogT2[payload(env.evm.StateDB)], sdbLogT3[payload(env.evm.StateDB)], sdbLogData[payload(env.evm.StateDB)], sdbOther[payload(env.evm.StateDB)]
@@ -630,6 +754,7 @@ package keeper
 
 // approve(spender, value): sets exactly the entry (caller, spender) to value; one Approval log; bank untouched (frame).
 //@ func (e erc20CustomPrecompiledContractRwApprove) Execute(caller corevm.ContractRef, contractAddr common.Address, input []byte, env cpcExecutorEnv) (ret []byte, err error)
+//@   deterministic[C01.no_node_local_source]
 //@   requires caller != nil && env.evm != nil && env.evm.StateDB != nil && e.contract != nil && e.contract.keeper.storeKey != nil
 //@   modifies kvHas[kvId(layer(env.ctx), payload(e.contract.keeper.storeKey))], kvVal[kvId(layer(env.ctx), payload(e.contract.keeper.storeKey))], sdbLogCount[payload(env.evm.StateDB)], sdbLogAddr[payload(env.evm.StateDB)], sdbLogNTopics[payload(env.evm.StateDB)], sdbLogT0[payload(env.evm.StateDB)], sdbLogT1[payload(env.evm.StateDB)], sdbLogT2[payload(env.evm.StateDB)], sdbLogT3[payload(env.evm.StateDB)], sdbLogData[payload(env.evm.StateDB)], sdbOther[payload(env.evm.StateDB)]
 //@   ensures[C10.approve_nonzero_parties] err == nil ==> (caller.Address() != zero(type(common.Address)) && abiArgAddr(bytes(input), 0) != zero(type(common.Address)))
@@ -641,6 +766,7 @@ package keeper
 
 // burnFrom(address, x): like transferFrom to the zero address: allowance rule, then the burn law.
 //@ func (e erc20CustomPrecompiledContractRwBurnFrom) Execute(caller corevm.ContractRef, contractAddr common.Address, input []byte, env cpcExecutorEnv) (ret []byte, err error)
+//@   deterministic[C01.no_node_local_source]
 //@   requires caller != nil && env.evm != nil && env.evm.StateDB != nil && e.transferFrom.contract != nil && e.transferFrom.contract.keeper.storeKey != nil && e.transferFrom.contract.keeper.bankKeeper != nil
 //@   requires (e.transferFrom.contract.cacheErc20Metadata != nil ==> (e.transferFrom.contract.cacheErc20Metadata.MinDenom == erc20Denom(e.transferFrom.contract.metadata.TypedMeta) && e.transferFrom.contract.cacheErc20Metadata.Symbol == jsonErc20Symbol(strBytes(e.transferFrom.contract.metadata.TypedMeta)) && e.transferFrom.contract.cacheErc20Metadata.Decimals == jsonErc20Decimals(strBytes(e.transferFrom.contract.metadata.TypedMeta))))
 //@   modifies e.transferFrom.contract.cacheErc20Metadata, kvHas[kvId(layer(env.ctx), payload(e.transferFrom.contract.keeper.storeKey))], kvVal[kvId(layer(env.ctx), payload(e.transferFrom.contract.keeper.storeKey))], bankBal[layer(env.ctx)], bankSupply[layer(env.ctx)], authVersion[layer(env.ctx)], evlog[payload(env.ctx.EventManager())], sdbLogCount[payload(env.evm.StateDB)], sdbLogAddr[payload(env.evm.StateDB)], sdbLogNTopics[payload(env.evm.StateDB)], sdbLogT0[payload(env.evm.StateDB)], sdbLogT1[payload(env.evm.StateDB)], sdbLogT2[payload(env.evm.StateDB)], sdbLogT3[payload(env.evm.StateDB)], sdbLogData[payload(env.evm.StateDB)], sdbOther[payload(env.evm.StateDB)]
@@ -656,6 +782,7 @@ package keeper
 
 // burn(x): destroys the CALLER's coins only; the allowance table is untouched (frame).
 //@ func (e erc20CustomPrecompiledContractRwBurn) Execute(caller corevm.ContractRef, contractAddr common.Address, input []byte, env cpcExecutorEnv) (ret []byte, err error)
+//@   deterministic[C01.no_node_local_source]
 //@   requires caller != nil && env.evm != nil && env.evm.StateDB != nil && e.transferFrom.contract != nil && e.transferFrom.contract.keeper.storeKey != nil && e.transferFrom.contract.keeper.bankKeeper != nil
 //@   requires (e.transferFrom.contract.cacheErc20Metadata != nil ==> (e.transferFrom.contract.cacheErc20Metadata.MinDenom == erc20Denom(e.transferFrom.contract.metadata.TypedMeta) && e.transferFrom.contract.cacheErc20Metadata.Symbol == jsonErc20Symbol(strBytes(e.transferFrom.contract.metadata.TypedMeta)) && e.transferFrom.contract.cacheErc20Metadata.Decimals == jsonErc20Decimals(strBytes(e.transferFrom.contract.metadata.TypedMeta))))
 //@   modifies e.transferFrom.contract.cacheErc20Metadata, bankBal[layer(env.ctx)], bankSupply[layer(env.ctx)], authVersion[layer(env.ctx)], evlog[payload(env.ctx.EventManager())], sdbLogCount[payload(env.evm.StateDB)], sdbLogAddr[payload(env.evm.StateDB)], sdbLogNTopics[payload(env.evm.StateDB)], sdbLogT0[payload(env.evm.StateDB)], sdbLogT1[payload(env.evm.StateDB)], sdbLogT2[payload(env.evm.StateDB)], sdbLogT3[payload(env.evm.StateDB)], sdbLogData[payload(env.evm.StateDB)], sdbOther[payload(env.evm.StateDB)]
@@ -672,6 +799,7 @@ package keeper
 // ---------------------------------------------------------------------------------------------
 
 //@ func (e erc20CustomPrecompiledContractRoName) Execute(caller corevm.ContractRef, contractAddr common.Address, input []byte, env cpcExecutorEnv) (ret []byte, err error)
+//@   deterministic[C01.no_node_local_source]
 //@   requires e.contract != nil
 //@   modifies nothing
 //@   ensures[C10.view_name,C12.ro_name_writes_nothing] err == nil ==> bytes(ret) == abiEncString(e.contract.metadata.Name)
@@ -679,6 +807,7 @@ package keeper
 //@   panics[C10.view_name_panics] only_if len(input) < 4 || !abiSelectorOk("name", bytes(input))
 
 //@ func (e erc20CustomPrecompiledContractRoSymbol) Execute(caller corevm.ContractRef, contractAddr common.Address, input []byte, env cpcExecutorEnv) (ret []byte, err error)
+//@   deterministic[C01.no_node_local_source]
 //@   requires e.contract != nil
 //@   requires (e.contract.cacheErc20Metadata != nil ==> (e.contract.cacheErc20Metadata.MinDenom == erc20Denom(e.contract.metadata.TypedMeta) && e.contract.cacheErc20Metadata.Symbol == jsonErc20Symbol(strBytes(e.contract.metadata.TypedMeta)) && e.contract.cacheErc20Metadata.Decimals == jsonErc20Decimals(strBytes(e.contract.metadata.TypedMeta))))
 //@   modifies e.contract.cacheErc20Metadata
@@ -688,6 +817,7 @@ package keeper
 //@   panics[C10.view_symbol_panics] only_if len(input) < 4 || !abiSelectorOk("symbol", bytes(input)) || !jsonErc20Ok(strBytes(e.contract.metadata.TypedMeta))
 
 //@ func (e erc20CustomPrecompiledContractRoDecimals) Execute(caller corevm.ContractRef, contractAddr common.Address, input []byte, env cpcExecutorEnv) (ret []byte, err error)
+//@   deterministic[C01.no_node_local_source]
 //@   requires e.contract != nil
 //@   requires (e.contract.cacheErc20Metadata != nil ==> (e.contract.cacheErc20Metadata.MinDenom == erc20Denom(e.contract.metadata.TypedMeta) && e.contract.cacheErc20Metadata.Symbol == jsonErc20Symbol(strBytes(e.contract.metadata.TypedMeta)) && e.contract.cacheErc20Metadata.Decimals == jsonErc20Decimals(strBytes(e.contract.metadata.TypedMeta))))
 //@   modifies e.contract.cacheErc20Metadata
@@ -697,6 +827,7 @@ package keeper
 //@   panics[C10.view_decimals_panics] only_if len(input) < 4 || !abiSelectorOk("decimals", bytes(input)) || !jsonErc20Ok(strBytes(e.contract.metadata.TypedMeta))
 
 //@ func (e erc20CustomPrecompiledContractRoTotalSupply) Execute(caller corevm.ContractRef, contractAddr common.Address, input []byte, env cpcExecutorEnv) (ret []byte, err error)
+//@   deterministic[C01.no_node_local_source]
 //@   requires e.contract != nil && e.contract.keeper.bankKeeper != nil
 //@   requires (e.contract.cacheErc20Metadata != nil ==> (e.contract.cacheErc20Metadata.MinDenom == erc20Denom(e.contract.metadata.TypedMeta) && e.contract.cacheErc20Metadata.Symbol == jsonErc20Symbol(strBytes(e.contract.metadata.TypedMeta)) && e.contract.cacheErc20Metadata.Decimals == jsonErc20Decimals(strBytes(e.contract.metadata.TypedMeta))))
 //@   modifies e.contract.cacheErc20Metadata
@@ -706,6 +837,7 @@ package keeper
 //@   panics[C10.view_totalSupply_panics] only_if len(input) < 4 || !abiSelectorOk("totalSupply", bytes(input)) || !jsonErc20Ok(strBytes(e.contract.metadata.TypedMeta))
 
 //@ func (e erc20CustomPrecompiledContractRoBalanceOf) Execute(caller corevm.ContractRef, contractAddr common.Address, input []byte, env cpcExecutorEnv) (ret []byte, err error)
+//@   deterministic[C01.no_node_local_source]
 //@   requires e.contract != nil && e.contract.keeper.bankKeeper != nil
 //@   requires (e.contract.cacheErc20Metadata != nil ==> (e.contract.cacheErc20Metadata.MinDenom == erc20Denom(e.contract.metadata.TypedMeta) && e.contract.cacheErc20Metadata.Symbol == jsonErc20Symbol(strBytes(e.contract.metadata.TypedMeta)) && e.contract.cacheErc20Metadata.Decimals == jsonErc20Decimals(strBytes(e.contract.metadata.TypedMeta))))
 //@   modifies e.contract.cacheErc20Metadata
@@ -715,6 +847,7 @@ package keeper
 //@   panics[C10.view_balanceOf_panics] only_if len(input) < 4 || !abiSelectorOk("balanceOf", bytes(input)) || !jsonErc20Ok(strBytes(e.contract.metadata.TypedMeta))
 
 //@ func (e erc20CustomPrecompiledContractRoAllowance) Execute(caller corevm.ContractRef, contractAddr common.Address, input []byte, env cpcExecutorEnv) (ret []byte, err error)
+//@   deterministic[C01.no_node_local_source]
 //@   requires e.contract != nil && e.contract.keeper.storeKey != nil
 //@   modifies nothing
 //@   ensures[C10.view_allowance,C12.ro_allowance_writes_nothing] err == nil ==> bytes(ret) == abiEncUint(cpcAllow(kvHas[kvId(layer(env.ctx), payload(e.contract.keeper.storeKey))], kvVal[kvId(layer(env.ctx), payload(e.contract.keeper.storeKey))], abiArgAddr(bytes(input), 0), abiArgAddr(bytes(input), 1)))
@@ -779,6 +912,7 @@ package keeper
 // The wrapper the fork calls: exactly one call of the wrapped executor, with the call data unchanged, the EVM it was
 // given and the StateDB's CURRENT context (so that every write of the executor lands in the innermost, revertible layer).
 //@ func (m customPrecompiledContractMethodExecutorImpl) Execute(caller corevm.ContractRef, contractAddress common.Address, input []byte, evm *corevm.EVM) (ret []byte, err error)
+//@   deterministic[C01.no_node_local_source]
 //@   requires m.executor != nil && evm != nil
 //@   modifies cpcInnerCalls, cpcInnerCtx, cpcInnerEvm, cpcInnerExecutor, cpcInnerInput, bankBal, bankSupply, authVersion, evlog, kvHas, kvVal, sdbLogCount, sdbLogAddr, sdbLogNTopics, sdbLogT0, sdbLogT1, sdbLogT2, sdbLogT3, sdbLogData, sdbOther, sdbBal, sdbNonce, sdbSupply
 //@   ensures[C12.exec_env,C03.exec_env] cpcInnerCalls[0] == old(cpcInnerCalls[0]) + 1 && cpcInnerEvm[0] == evm && cpcInnerExecutor[0] == payload(m.executor) && cpcInnerInput[0] == bytes(input) && implements(evm.StateDB, type(evmvm.CStateDB)) && cpcInnerCtx[0] == old(sdbCurCtx[payload(evm.StateDB)])
@@ -810,6 +944,7 @@ package keeper
 
 // SetParams: the protocol version never decreases; a rejected update leaves the store untouched; only the params entry is written.
 //@ func (k Keeper) SetParams(ctx sdk.Context, params cpctypes.Params) (err error)
+//@   deterministic[C01.no_node_local_source]
 //@   requires k.storeKey != nil && k.cdc != nil
 //@   modifies kvHas[kvId(layer(ctx), payload(k.storeKey))], kvVal[kvId(layer(ctx), payload(k.storeKey))]
 //@   ensures[C17.no_downgrade] err == nil ==> (old(cpcParamsVersion(kvHas[kvId(layer(ctx), payload(k.storeKey))], kvVal[kvId(layer(ctx), payload(k.storeKey))])) <= params.ProtocolVersion && cpcParamsVersion(kvHas[kvId(layer(ctx), payload(k.storeKey))], kvVal[kvId(layer(ctx), payload(k.storeKey))]) == params.ProtocolVersion)
@@ -820,6 +955,7 @@ package keeper
 
 // msg_server.go — deployment is restricted to the whitelist stored in the params (C17)
 //@ func validateDeployer(authority string, moduleParams cpctypes.Params) (err error)
+//@   deterministic[C01.no_node_local_source]
 //@   modifies nothing
 //@   ensures[C17.whitelist_check] (err == nil) == (exists j int :: 0 <= j && j < len(moduleParams.WhitelistedDeployers) && moduleParams.WhitelistedDeployers[j] == authority)
 //@   panics never
@@ -832,12 +968,14 @@ package keeper
 // ---------------------------------------------------------------------------------------------
 
 //@ func (k Keeper) HasCustomPrecompiledContract(ctx sdk.Context, contractAddress common.Address) bool
+//@   deterministic[C01.no_node_local_source]
 //@   requires k.storeKey != nil
 //@   modifies nothing
 //@   ensures[C17.has_view] result == kvHas[kvId(layer(ctx), payload(k.storeKey))][metaKeyB(contractAddress)]
 //@   panics never
 
 //@ func (k Keeper) GetCustomPrecompiledContractMeta(ctx sdk.Context, contractAddress common.Address) (meta *cpctypes.CustomPrecompiledContractMeta)
+//@   deterministic[C01.no_node_local_source]
 //@   requires k.storeKey != nil && k.cdc != nil
 //@   modifies nothing
 //@   ensures[C17.get_absent] (meta == nil) == !(kvHas[kvId(layer(ctx), payload(k.storeKey))][metaKeyB(contractAddress)] && blen(kvVal[kvId(layer(ctx), payload(k.storeKey))][metaKeyB(contractAddress)]) != 0)
@@ -847,6 +985,7 @@ package keeper
 // SetCustomPrecompiledContractMeta: a new deployment needs a free address, an update an existing record of the SAME type
 // (a type change panics); only the record of that address is written; a failing call writes nothing.
 //@ func (k Keeper) SetCustomPrecompiledContractMeta(ctx sdk.Context, contractMetadata cpctypes.CustomPrecompiledContractMeta, newDeployment bool) (err error)
+//@   deterministic[C01.no_node_local_source]
 //@   requires k.storeKey != nil && k.cdc != nil
 //@   modifies kvHas[kvId(layer(ctx), payload(k.storeKey))], kvVal[kvId(layer(ctx), payload(k.storeKey))], evlog[payload(ctx.EventManager())]
 //@   ensures[C17.valid_records_only] err == nil ==> (len(contractMetadata.Address) == 20 && bytesAddr(bytes(contractMetadata.Address)) != zero(type(common.Address)) && 1 <= contractMetadata.CustomPrecompiledType && contractMetadata.CustomPrecompiledType <= 3)
@@ -865,12 +1004,14 @@ package keeper
 //@ import crypto "github.com/ethereum/go-ethereum/crypto"
 
 //@ func (k Keeper) GetNextDynamicCustomPrecompiledContractAddress(ctx sdk.Context) common.Address
+//@   deterministic[C01.no_node_local_source]
 //@   modifies acctExists[layer(ctx)], acctSeq[layer(ctx)], authVersion[layer(ctx)]
 //@   ensures[C17.dynamic_address_from_sequence] result == crypto.CreateAddress(cpctypes.CpcModuleAddress, old(acctSeq[layer(ctx)][moduleAddr(cpctypes.ModuleName)]))
 //@   ensures[C17.sequence_consumed] acctSeq[layer(ctx)] == old(acctSeq[layer(ctx)])[moduleAddr(cpctypes.ModuleName) := (old(acctSeq[layer(ctx)][moduleAddr(cpctypes.ModuleName)]) + 1) % pow2(64)] && acctExists[layer(ctx)][moduleAddr(cpctypes.ModuleName)]
 //@   panics only_if !modExists(cpctypes.ModuleName)
 
 //@ func (k Keeper) DeployStakingCustomPrecompiledContract(ctx sdk.Context, stakingMeta cpctypes.StakingCustomPrecompiledContractMeta) (addr common.Address, err error)
+//@   deterministic[C01.no_node_local_source]
 //@   requires k.storeKey != nil && k.cdc != nil
 //@   modifies kvHas[kvId(layer(ctx), payload(k.storeKey))], kvVal[kvId(layer(ctx), payload(k.storeKey))], evlog[payload(ctx.EventManager())]
 //@   ensures[C17.DeployStakingCustomPrecompiledContract_at_fixed_address] err == nil ==> (addr == cpctypes.CpcStakingFixedAddress && !old(kvHas[kvId(layer(ctx), payload(k.storeKey))][metaKeyB(cpctypes.CpcStakingFixedAddress)]) && kvHas[kvId(layer(ctx), payload(k.storeKey))][metaKeyB(cpctypes.CpcStakingFixedAddress)] && pbMetaType(kvVal[kvId(layer(ctx), payload(k.storeKey))][metaKeyB(cpctypes.CpcStakingFixedAddress)]) == 2 && pbMetaAddr(kvVal[kvId(layer(ctx), payload(k.storeKey))][metaKeyB(cpctypes.CpcStakingFixedAddress)]) == addrBytes(cpctypes.CpcStakingFixedAddress) && !pbMetaDisabled(kvVal[kvId(layer(ctx), payload(k.storeKey))][metaKeyB(cpctypes.CpcStakingFixedAddress)]))
@@ -878,6 +1019,7 @@ package keeper
 //@   ensures[C17.DeployStakingCustomPrecompiledContract_failure_writes_nothing] err != nil ==> (kvHas[kvId(layer(ctx), payload(k.storeKey))] == old(kvHas[kvId(layer(ctx), payload(k.storeKey))]) && kvVal[kvId(layer(ctx), payload(k.storeKey))] == old(kvVal[kvId(layer(ctx), payload(k.storeKey))]))
 
 //@ func (k Keeper) DeployBech32CustomPrecompiledContract(ctx sdk.Context) (addr common.Address, err error)
+//@   deterministic[C01.no_node_local_source]
 //@   requires k.storeKey != nil && k.cdc != nil
 //@   modifies kvHas[kvId(layer(ctx), payload(k.storeKey))], kvVal[kvId(layer(ctx), payload(k.storeKey))], evlog[payload(ctx.EventManager())]
 //@   ensures[C17.DeployBech32CustomPrecompiledContract_at_fixed_address] err == nil ==> (addr == cpctypes.CpcBech32FixedAddress && !old(kvHas[kvId(layer(ctx), payload(k.storeKey))][metaKeyB(cpctypes.CpcBech32FixedAddress)]) && kvHas[kvId(layer(ctx), payload(k.storeKey))][metaKeyB(cpctypes.CpcBech32FixedAddress)] && pbMetaType(kvVal[kvId(layer(ctx), payload(k.storeKey))][metaKeyB(cpctypes.CpcBech32FixedAddress)]) == 3 && pbMetaAddr(kvVal[kvId(layer(ctx), payload(k.storeKey))][metaKeyB(cpctypes.CpcBech32FixedAddress)]) == addrBytes(cpctypes.CpcBech32FixedAddress) && !pbMetaDisabled(kvVal[kvId(layer(ctx), payload(k.storeKey))][metaKeyB(cpctypes.CpcBech32FixedAddress)]))
@@ -888,6 +1030,7 @@ package keeper
 // free), only for a denomination with positive supply; the record goes to the next dynamic address and the reverse index
 // entry denom -> address is written with it; nothing else in the store changes.
 //@ func (k Keeper) DeployErc20CustomPrecompiledContract(ctx sdk.Context, name string, erc20Meta cpctypes.Erc20CustomPrecompiledContractMeta) (addr common.Address, err error)
+//@   deterministic[C01.no_node_local_source]
 //@   requires k.storeKey != nil && k.cdc != nil && k.bankKeeper != nil
 //@   modifies kvHas[kvId(layer(ctx), payload(k.storeKey))], kvVal[kvId(layer(ctx), payload(k.storeKey))], evlog[payload(ctx.EventManager())], acctExists[layer(ctx)], acctSeq[layer(ctx)], authVersion[layer(ctx)]
 //@   ensures[C17.one_per_denom] err == nil ==> !(old(kvHas[kvId(layer(ctx), payload(k.storeKey))][denomKeyB(erc20Meta.MinDenom)]) && blen(old(kvVal[kvId(layer(ctx), payload(k.storeKey))][denomKeyB(erc20Meta.MinDenom)])) != 0)
@@ -898,6 +1041,7 @@ package keeper
 //@   ensures[C17.erc20_deploy_frame] kvHas[kvId(layer(ctx), payload(k.storeKey))] == old(kvHas[kvId(layer(ctx), payload(k.storeKey))])[metaKeyB(crypto.CreateAddress(cpctypes.CpcModuleAddress, old(acctSeq[layer(ctx)][moduleAddr(cpctypes.ModuleName)]))) := kvHas[kvId(layer(ctx), payload(k.storeKey))][metaKeyB(crypto.CreateAddress(cpctypes.CpcModuleAddress, old(acctSeq[layer(ctx)][moduleAddr(cpctypes.ModuleName)])))]][denomKeyB(erc20Meta.MinDenom) := kvHas[kvId(layer(ctx), payload(k.storeKey))][denomKeyB(erc20Meta.MinDenom)]] && kvVal[kvId(layer(ctx), payload(k.storeKey))] == old(kvVal[kvId(layer(ctx), payload(k.storeKey))])[metaKeyB(crypto.CreateAddress(cpctypes.CpcModuleAddress, old(acctSeq[layer(ctx)][moduleAddr(cpctypes.ModuleName)]))) := kvVal[kvId(layer(ctx), payload(k.storeKey))][metaKeyB(crypto.CreateAddress(cpctypes.CpcModuleAddress, old(acctSeq[layer(ctx)][moduleAddr(cpctypes.ModuleName)])))]][denomKeyB(erc20Meta.MinDenom) := kvVal[kvId(layer(ctx), payload(k.storeKey))][denomKeyB(erc20Meta.MinDenom)]]
 
 //@ func (k Keeper) GetErc20CustomPrecompiledContractAddressByMinDenom(ctx sdk.Context, minDenom string) (addr *common.Address)
+//@   deterministic[C01.no_node_local_source]
 //@   requires k.storeKey != nil
 //@   modifies nothing
 //@   ensures[C17.denom_index_view] (addr == nil) == !(kvHas[kvId(layer(ctx), payload(k.storeKey))][denomKeyB(minDenom)] && blen(kvVal[kvId(layer(ctx), payload(k.storeKey))][denomKeyB(minDenom)]) != 0)
@@ -907,18 +1051,21 @@ package keeper
 // msg_server.go — only an address on the stored whitelist deploys (C17); a request from anybody else fails before any write
 //@ import context "context"
 //@ func (k *msgServer) DeployErc20Contract(goCtx context.Context, req *cpctypes.MsgDeployErc20ContractRequest) (res *cpctypes.MsgDeployErc20ContractResponse, err error)
+//@   deterministic[C01.no_node_local_source]
 //@   requires k != nil && req != nil && k.Keeper.storeKey != nil && k.Keeper.cdc != nil && k.Keeper.bankKeeper != nil
 //@   modifies kvHas[kvId(layer(sdk.UnwrapSDKContext(goCtx)), payload(k.Keeper.storeKey))], kvVal[kvId(layer(sdk.UnwrapSDKContext(goCtx)), payload(k.Keeper.storeKey))], evlog[payload(sdk.UnwrapSDKContext(goCtx).EventManager())], acctExists[layer(sdk.UnwrapSDKContext(goCtx))], acctSeq[layer(sdk.UnwrapSDKContext(goCtx))], authVersion[layer(sdk.UnwrapSDKContext(goCtx))]
 //@   ensures[C17.DeployErc20Contract_whitelisted_only] err == nil ==> (old(cpcParamsStored(kvHas[kvId(layer(sdk.UnwrapSDKContext(goCtx)), payload(k.Keeper.storeKey))], kvVal[kvId(layer(sdk.UnwrapSDKContext(goCtx)), payload(k.Keeper.storeKey))])) && (exists j int :: 0 <= j && j < pbParamsWLLen(old(cpcParamsDoc(kvHas[kvId(layer(sdk.UnwrapSDKContext(goCtx)), payload(k.Keeper.storeKey))], kvVal[kvId(layer(sdk.UnwrapSDKContext(goCtx)), payload(k.Keeper.storeKey))]))) && pbParamsWLAt(old(cpcParamsDoc(kvHas[kvId(layer(sdk.UnwrapSDKContext(goCtx)), payload(k.Keeper.storeKey))], kvVal[kvId(layer(sdk.UnwrapSDKContext(goCtx)), payload(k.Keeper.storeKey))])), j) == req.Authority))
 //@   ensures[C17.DeployErc20Contract_rejected_writes_nothing] !(old(cpcParamsStored(kvHas[kvId(layer(sdk.UnwrapSDKContext(goCtx)), payload(k.Keeper.storeKey))], kvVal[kvId(layer(sdk.UnwrapSDKContext(goCtx)), payload(k.Keeper.storeKey))])) && (exists j int :: 0 <= j && j < pbParamsWLLen(old(cpcParamsDoc(kvHas[kvId(layer(sdk.UnwrapSDKContext(goCtx)), payload(k.Keeper.storeKey))], kvVal[kvId(layer(sdk.UnwrapSDKContext(goCtx)), payload(k.Keeper.storeKey))]))) && pbParamsWLAt(old(cpcParamsDoc(kvHas[kvId(layer(sdk.UnwrapSDKContext(goCtx)), payload(k.Keeper.storeKey))], kvVal[kvId(layer(sdk.UnwrapSDKContext(goCtx)), payload(k.Keeper.storeKey))])), j) == req.Authority)) ==> (err != nil && (kvHas[kvId(layer(sdk.UnwrapSDKContext(goCtx)), payload(k.Keeper.storeKey))] == old(kvHas[kvId(layer(sdk.UnwrapSDKContext(goCtx)), payload(k.Keeper.storeKey))]) && kvVal[kvId(layer(sdk.UnwrapSDKContext(goCtx)), payload(k.Keeper.storeKey))] == old(kvVal[kvId(layer(sdk.UnwrapSDKContext(goCtx)), payload(k.Keeper.storeKey))])) && acctSeq[layer(sdk.UnwrapSDKContext(goCtx))] == old(acctSeq[layer(sdk.UnwrapSDKContext(goCtx))]))
 
 //@ func (k *msgServer) DeployStakingContract(goCtx context.Context, req *cpctypes.MsgDeployStakingContractRequest) (res *cpctypes.MsgDeployStakingContractResponse, err error)
+//@   deterministic[C01.no_node_local_source]
 //@   requires k != nil && req != nil && k.Keeper.storeKey != nil && k.Keeper.cdc != nil && k.Keeper.bankKeeper != nil
 //@   modifies kvHas[kvId(layer(sdk.UnwrapSDKContext(goCtx)), payload(k.Keeper.storeKey))], kvVal[kvId(layer(sdk.UnwrapSDKContext(goCtx)), payload(k.Keeper.storeKey))], evlog[payload(sdk.UnwrapSDKContext(goCtx).EventManager())], acctExists[layer(sdk.UnwrapSDKContext(goCtx))], acctSeq[layer(sdk.UnwrapSDKContext(goCtx))], authVersion[layer(sdk.UnwrapSDKContext(goCtx))]
 //@   ensures[C17.DeployStakingContract_whitelisted_only] err == nil ==> (old(cpcParamsStored(kvHas[kvId(layer(sdk.UnwrapSDKContext(goCtx)), payload(k.Keeper.storeKey))], kvVal[kvId(layer(sdk.UnwrapSDKContext(goCtx)), payload(k.Keeper.storeKey))])) && (exists j int :: 0 <= j && j < pbParamsWLLen(old(cpcParamsDoc(kvHas[kvId(layer(sdk.UnwrapSDKContext(goCtx)), payload(k.Keeper.storeKey))], kvVal[kvId(layer(sdk.UnwrapSDKContext(goCtx)), payload(k.Keeper.storeKey))]))) && pbParamsWLAt(old(cpcParamsDoc(kvHas[kvId(layer(sdk.UnwrapSDKContext(goCtx)), payload(k.Keeper.storeKey))], kvVal[kvId(layer(sdk.UnwrapSDKContext(goCtx)), payload(k.Keeper.storeKey))])), j) == req.Authority))
 //@   ensures[C17.DeployStakingContract_rejected_writes_nothing] !(old(cpcParamsStored(kvHas[kvId(layer(sdk.UnwrapSDKContext(goCtx)), payload(k.Keeper.storeKey))], kvVal[kvId(layer(sdk.UnwrapSDKContext(goCtx)), payload(k.Keeper.storeKey))])) && (exists j int :: 0 <= j && j < pbParamsWLLen(old(cpcParamsDoc(kvHas[kvId(layer(sdk.UnwrapSDKContext(goCtx)), payload(k.Keeper.storeKey))], kvVal[kvId(layer(sdk.UnwrapSDKContext(goCtx)), payload(k.Keeper.storeKey))]))) && pbParamsWLAt(old(cpcParamsDoc(kvHas[kvId(layer(sdk.UnwrapSDKContext(goCtx)), payload(k.Keeper.storeKey))], kvVal[kvId(layer(sdk.UnwrapSDKContext(goCtx)), payload(k.Keeper.storeKey))])), j) == req.Authority)) ==> (err != nil && (kvHas[kvId(layer(sdk.UnwrapSDKContext(goCtx)), payload(k.Keeper.storeKey))] == old(kvHas[kvId(layer(sdk.UnwrapSDKContext(goCtx)), payload(k.Keeper.storeKey))]) && kvVal[kvId(layer(sdk.UnwrapSDKContext(goCtx)), payload(k.Keeper.storeKey))] == old(kvVal[kvId(layer(sdk.UnwrapSDKContext(goCtx)), payload(k.Keeper.storeKey))])) && acctSeq[layer(sdk.UnwrapSDKContext(goCtx))] == old(acctSeq[layer(sdk.UnwrapSDKContext(goCtx))]))
 
 //@ func (k *msgServer) UpdateParams(goCtx context.Context, req *cpctypes.MsgUpdateParams) (res *cpctypes.MsgUpdateParamsResponse, err error)
+//@   deterministic[C01.no_node_local_source]
 //@   requires k != nil && req != nil && k.Keeper.storeKey != nil && k.Keeper.cdc != nil
 //@   modifies kvHas[kvId(layer(sdk.UnwrapSDKContext(goCtx)), payload(k.Keeper.storeKey))], kvVal[kvId(layer(sdk.UnwrapSDKContext(goCtx)), payload(k.Keeper.storeKey))]
 //@   ensures[C17.update_params_no_downgrade] err == nil ==> (old(cpcParamsVersion(kvHas[kvId(layer(sdk.UnwrapSDKContext(goCtx)), payload(k.Keeper.storeKey))], kvVal[kvId(layer(sdk.UnwrapSDKContext(goCtx)), payload(k.Keeper.storeKey))])) <= req.NewParams.ProtocolVersion && cpcParamsVersion(kvHas[kvId(layer(sdk.UnwrapSDKContext(goCtx)), payload(k.Keeper.storeKey))], kvVal[kvId(layer(sdk.UnwrapSDKContext(goCtx)), payload(k.Keeper.storeKey))]) == req.NewParams.ProtocolVersion)
@@ -964,18 +1111,21 @@ package keeper
 // written back. It FAILS when the querier is run on the live context (finding F-cpc-2, docs/findings-cpc.md); it holds
 // when the querier runs on a cache context whose write function is dropped (fix candidate, docs/findings-cpc2.md).
 //@ func (e stakingCustomPrecompiledContractRoRewardOf) Execute(caller corevm.ContractRef, contractAddr common.Address, input []byte, env cpcExecutorEnv) (ret []byte, err error)
+//@   deterministic[C01.no_node_local_source]
 //@   requires e.contract != nil
 //@   modifies distVersion
 //@   ensures[C12.ro_world_unchanged] (bankBal == old(bankBal) && bankSupply == old(bankSupply) && authVersion == old(authVersion) && evlog == old(evlog) && kvHas == old(kvHas) && kvVal == old(kvVal) && acctSeq == old(acctSeq) && acctExists == old(acctExists) && stakingVersion == old(stakingVersion) && sdbLogCount == old(sdbLogCount) && sdbLogAddr == old(sdbLogAddr) && sdbLogNTopics == old(sdbLogNTopics) && sdbLogT0 == old(sdbLogT0) && sdbLogT1 == old(sdbLogT1) && sdbLogT2 == old(sdbLogT2) && sdbLogT3 == old(sdbLogT3) && sdbLogData == old(sdbLogData))
 //@   ensures[C12.ro_distribution_unchanged] distVersion[layer(env.ctx)] == old(distVersion[layer(env.ctx)]) && (forall l int :: lyrDepth(l) <= lyrDepth(layer(env.ctx)) ==> distVersion[l] == old(distVersion[l]))
 
 //@ func (e stakingCustomPrecompiledContractRoRewardsOf) Execute(caller corevm.ContractRef, contractAddr common.Address, input []byte, env cpcExecutorEnv) (ret []byte, err error)
+//@   deterministic[C01.no_node_local_source]
 //@   requires e.contract != nil
 //@   modifies distVersion
 //@   ensures[C12.ro_world_unchanged] (bankBal == old(bankBal) && bankSupply == old(bankSupply) && authVersion == old(authVersion) && evlog == old(evlog) && kvHas == old(kvHas) && kvVal == old(kvVal) && acctSeq == old(acctSeq) && acctExists == old(acctExists) && stakingVersion == old(stakingVersion) && sdbLogCount == old(sdbLogCount) && sdbLogAddr == old(sdbLogAddr) && sdbLogNTopics == old(sdbLogNTopics) && sdbLogT0 == old(sdbLogT0) && sdbLogT1 == old(sdbLogT1) && sdbLogT2 == old(sdbLogT2) && sdbLogT3 == old(sdbLogT3) && sdbLogData == old(sdbLogData))
 //@   ensures[C12.ro_distribution_unchanged] distVersion[layer(env.ctx)] == old(distVersion[layer(env.ctx)]) && (forall l int :: lyrDepth(l) <= lyrDepth(layer(env.ctx)) ==> distVersion[l] == old(distVersion[l]))
 
 //@ func (e stakingCustomPrecompiledContractRoBalanceOf) Execute(caller corevm.ContractRef, contractAddr common.Address, input []byte, env cpcExecutorEnv) (ret []byte, err error)
+//@   deterministic[C01.no_node_local_source]
 //@   requires e.rewardsOf.contract != nil && e.rewardsOf.contract.keeper.bankKeeper != nil
 //@   modifies distVersion
 //@   ensures[C12.ro_world_unchanged] (bankBal == old(bankBal) && bankSupply == old(bankSupply) && authVersion == old(authVersion) && evlog == old(evlog) && kvHas == old(kvHas) && kvVal == old(kvVal) && acctSeq == old(acctSeq) && acctExists == old(acctExists) && stakingVersion == old(stakingVersion) && sdbLogCount == old(sdbLogCount) && sdbLogAddr == old(sdbLogAddr) && sdbLogNTopics == old(sdbLogNTopics) && sdbLogT0 == old(sdbLogT0) && sdbLogT1 == old(sdbLogT1) && sdbLogT2 == old(sdbLogT2) && sdbLogT3 == old(sdbLogT3) && sdbLogData == old(sdbLogData))
@@ -983,68 +1133,83 @@ package keeper
 
 // the remaining read-only staking methods and the ten bech32 methods (pure computations)
 //@ func (e stakingCustomPrecompiledContractRoName) Execute(caller corevm.ContractRef, contractAddr common.Address, input []byte, env cpcExecutorEnv) (ret []byte, err error)
+//@   deterministic[C01.no_node_local_source]
 //@   requires e.contract != nil
 //@   modifies nothing
 //@   ensures[C12.ro_world_unchanged] (bankBal == old(bankBal) && bankSupply == old(bankSupply) && authVersion == old(authVersion) && evlog == old(evlog) && kvHas == old(kvHas) && kvVal == old(kvVal) && acctSeq == old(acctSeq) && acctExists == old(acctExists) && stakingVersion == old(stakingVersion) && distVersion == old(distVersion) && sdbLogCount == old(sdbLogCount) && sdbLogAddr == old(sdbLogAddr) && sdbLogNTopics == old(sdbLogNTopics) && sdbLogT0 == old(sdbLogT0) && sdbLogT1 == old(sdbLogT1) && sdbLogT2 == old(sdbLogT2) && sdbLogT3 == old(sdbLogT3) && sdbLogData == old(sdbLogData))
 
 //@ func (e stakingCustomPrecompiledContractRoSymbol) Execute(caller corevm.ContractRef, contractAddr common.Address, input []byte, env cpcExecutorEnv) (ret []byte, err error)
+//@   deterministic[C01.no_node_local_source]
 //@   requires e.contract != nil
 //@   modifies e.contract.cacheStakingMetadata
 //@   ensures[C12.ro_world_unchanged] (bankBal == old(bankBal) && bankSupply == old(bankSupply) && authVersion == old(authVersion) && evlog == old(evlog) && kvHas == old(kvHas) && kvVal == old(kvVal) && acctSeq == old(acctSeq) && acctExists == old(acctExists) && stakingVersion == old(stakingVersion) && distVersion == old(distVersion) && sdbLogCount == old(sdbLogCount) && sdbLogAddr == old(sdbLogAddr) && sdbLogNTopics == old(sdbLogNTopics) && sdbLogT0 == old(sdbLogT0) && sdbLogT1 == old(sdbLogT1) && sdbLogT2 == old(sdbLogT2) && sdbLogT3 == old(sdbLogT3) && sdbLogData == old(sdbLogData))
 
 //@ func (e stakingCustomPrecompiledContractRoDecimals) Execute(caller corevm.ContractRef, contractAddr common.Address, input []byte, env cpcExecutorEnv) (ret []byte, err error)
+//@   deterministic[C01.no_node_local_source]
 //@   requires e.contract != nil
 //@   modifies e.contract.cacheStakingMetadata
 //@   ensures[C12.ro_world_unchanged] (bankBal == old(bankBal) && bankSupply == old(bankSupply) && authVersion == old(authVersion) && evlog == old(evlog) && kvHas == old(kvHas) && kvVal == old(kvVal) && acctSeq == old(acctSeq) && acctExists == old(acctExists) && stakingVersion == old(stakingVersion) && distVersion == old(distVersion) && sdbLogCount == old(sdbLogCount) && sdbLogAddr == old(sdbLogAddr) && sdbLogNTopics == old(sdbLogNTopics) && sdbLogT0 == old(sdbLogT0) && sdbLogT1 == old(sdbLogT1) && sdbLogT2 == old(sdbLogT2) && sdbLogT3 == old(sdbLogT3) && sdbLogData == old(sdbLogData))
 
 // (delegatedValidators is NOT under contract: its loop builds a result slice with append; the engine havocs the element heap of a loop-carried slice, so the frame of pre-existing []common.Address backings cannot be shown)
 //@ func (e stakingCustomPrecompiledContractRoDelegationOf) Execute(caller corevm.ContractRef, contractAddr common.Address, input []byte, env cpcExecutorEnv) (ret []byte, err error)
+//@   deterministic[C01.no_node_local_source]
 //@   requires e.contract != nil
 //@   modifies nothing
 //@   ensures[C12.ro_world_unchanged] (bankBal == old(bankBal) && bankSupply == old(bankSupply) && authVersion == old(authVersion) && evlog == old(evlog) && kvHas == old(kvHas) && kvVal == old(kvVal) && acctSeq == old(acctSeq) && acctExists == old(acctExists) && stakingVersion == old(stakingVersion) && distVersion == old(distVersion) && sdbLogCount == old(sdbLogCount) && sdbLogAddr == old(sdbLogAddr) && sdbLogNTopics == old(sdbLogNTopics) && sdbLogT0 == old(sdbLogT0) && sdbLogT1 == old(sdbLogT1) && sdbLogT2 == old(sdbLogT2) && sdbLogT3 == old(sdbLogT3) && sdbLogData == old(sdbLogData))
 
 //@ func (e stakingCustomPrecompiledContractRoTotalDelegationOf) Execute(caller corevm.ContractRef, contractAddr common.Address, input []byte, env cpcExecutorEnv) (ret []byte, err error)
+//@   deterministic[C01.no_node_local_source]
 //@   requires e.contract != nil
 //@   modifies nothing
 //@   ensures[C12.ro_world_unchanged] (bankBal == old(bankBal) && bankSupply == old(bankSupply) && authVersion == old(authVersion) && evlog == old(evlog) && kvHas == old(kvHas) && kvVal == old(kvVal) && acctSeq == old(acctSeq) && acctExists == old(acctExists) && stakingVersion == old(stakingVersion) && distVersion == old(distVersion) && sdbLogCount == old(sdbLogCount) && sdbLogAddr == old(sdbLogAddr) && sdbLogNTopics == old(sdbLogNTopics) && sdbLogT0 == old(sdbLogT0) && sdbLogT1 == old(sdbLogT1) && sdbLogT2 == old(sdbLogT2) && sdbLogT3 == old(sdbLogT3) && sdbLogData == old(sdbLogData))
 
 //@ func (e bech32CustomPrecompiledContractRoEncodeAddress) Execute(caller corevm.ContractRef, contractAddr common.Address, input []byte, env cpcExecutorEnv) (ret []byte, err error)
+//@   deterministic[C01.no_node_local_source]
 //@   modifies nothing
 //@   ensures[C12.ro_world_unchanged] (bankBal == old(bankBal) && bankSupply == old(bankSupply) && authVersion == old(authVersion) && evlog == old(evlog) && kvHas == old(kvHas) && kvVal == old(kvVal) && acctSeq == old(acctSeq) && acctExists == old(acctExists) && stakingVersion == old(stakingVersion) && distVersion == old(distVersion) && sdbLogCount == old(sdbLogCount) && sdbLogAddr == old(sdbLogAddr) && sdbLogNTopics == old(sdbLogNTopics) && sdbLogT0 == old(sdbLogT0) && sdbLogT1 == old(sdbLogT1) && sdbLogT2 == old(sdbLogT2) && sdbLogT3 == old(sdbLogT3) && sdbLogData == old(sdbLogData))
 
 //@ func (e bech32CustomPrecompiledContractRoEncode32BytesAddress) Execute(caller corevm.ContractRef, contractAddr common.Address, input []byte, env cpcExecutorEnv) (ret []byte, err error)
+//@   deterministic[C01.no_node_local_source]
 //@   modifies nothing
 //@   ensures[C12.ro_world_unchanged] (bankBal == old(bankBal) && bankSupply == old(bankSupply) && authVersion == old(authVersion) && evlog == old(evlog) && kvHas == old(kvHas) && kvVal == old(kvVal) && acctSeq == old(acctSeq) && acctExists == old(acctExists) && stakingVersion == old(stakingVersion) && distVersion == old(distVersion) && sdbLogCount == old(sdbLogCount) && sdbLogAddr == old(sdbLogAddr) && sdbLogNTopics == old(sdbLogNTopics) && sdbLogT0 == old(sdbLogT0) && sdbLogT1 == old(sdbLogT1) && sdbLogT2 == old(sdbLogT2) && sdbLogT3 == old(sdbLogT3) && sdbLogData == old(sdbLogData))
 
 //@ func (e bech32CustomPrecompiledContractRoEncodeBytes) Execute(caller corevm.ContractRef, contractAddr common.Address, input []byte, env cpcExecutorEnv) (ret []byte, err error)
+//@   deterministic[C01.no_node_local_source]
 //@   modifies nothing
 //@   ensures[C12.ro_world_unchanged] (bankBal == old(bankBal) && bankSupply == old(bankSupply) && authVersion == old(authVersion) && evlog == old(evlog) && kvHas == old(kvHas) && kvVal == old(kvVal) && acctSeq == old(acctSeq) && acctExists == old(acctExists) && stakingVersion == old(stakingVersion) && distVersion == old(distVersion) && sdbLogCount == old(sdbLogCount) && sdbLogAddr == old(sdbLogAddr) && sdbLogNTopics == old(sdbLogNTopics) && sdbLogT0 == old(sdbLogT0) && sdbLogT1 == old(sdbLogT1) && sdbLogT2 == old(sdbLogT2) && sdbLogT3 == old(sdbLogT3) && sdbLogData == old(sdbLogData))
 
 //@ func (e bech32CustomPrecompiledContractRoDecode) Execute(caller corevm.ContractRef, contractAddr common.Address, input []byte, env cpcExecutorEnv) (ret []byte, err error)
+//@   deterministic[C01.no_node_local_source]
 //@   modifies nothing
 //@   ensures[C12.ro_world_unchanged] (bankBal == old(bankBal) && bankSupply == old(bankSupply) && authVersion == old(authVersion) && evlog == old(evlog) && kvHas == old(kvHas) && kvVal == old(kvVal) && acctSeq == old(acctSeq) && acctExists == old(acctExists) && stakingVersion == old(stakingVersion) && distVersion == old(distVersion) && sdbLogCount == old(sdbLogCount) && sdbLogAddr == old(sdbLogAddr) && sdbLogNTopics == old(sdbLogNTopics) && sdbLogT0 == old(sdbLogT0) && sdbLogT1 == old(sdbLogT1) && sdbLogT2 == old(sdbLogT2) && sdbLogT3 == old(sdbLogT3) && sdbLogData == old(sdbLogData))
 
 //@ func (e bech32CustomPrecompiledContractRoAccountAddrPrefix) Execute(caller corevm.ContractRef, contractAddr common.Address, input []byte, env cpcExecutorEnv) (ret []byte, err error)
+//@   deterministic[C01.no_node_local_source]
 //@   modifies nothing
 //@   ensures[C12.ro_world_unchanged] (bankBal == old(bankBal) && bankSupply == old(bankSupply) && authVersion == old(authVersion) && evlog == old(evlog) && kvHas == old(kvHas) && kvVal == old(kvVal) && acctSeq == old(acctSeq) && acctExists == old(acctExists) && stakingVersion == old(stakingVersion) && distVersion == old(distVersion) && sdbLogCount == old(sdbLogCount) && sdbLogAddr == old(sdbLogAddr) && sdbLogNTopics == old(sdbLogNTopics) && sdbLogT0 == old(sdbLogT0) && sdbLogT1 == old(sdbLogT1) && sdbLogT2 == old(sdbLogT2) && sdbLogT3 == old(sdbLogT3) && sdbLogData == old(sdbLogData))
 
 //@ func (e bech32CustomPrecompiledContractRoValidatorAddrPrefix) Execute(caller corevm.ContractRef, contractAddr common.Address, input []byte, env cpcExecutorEnv) (ret []byte, err error)
+//@   deterministic[C01.no_node_local_source]
 //@   modifies nothing
 //@   ensures[C12.ro_world_unchanged] (bankBal == old(bankBal) && bankSupply == old(bankSupply) && authVersion == old(authVersion) && evlog == old(evlog) && kvHas == old(kvHas) && kvVal == old(kvVal) && acctSeq == old(acctSeq) && acctExists == old(acctExists) && stakingVersion == old(stakingVersion) && distVersion == old(distVersion) && sdbLogCount == old(sdbLogCount) && sdbLogAddr == old(sdbLogAddr) && sdbLogNTopics == old(sdbLogNTopics) && sdbLogT0 == old(sdbLogT0) && sdbLogT1 == old(sdbLogT1) && sdbLogT2 == old(sdbLogT2) && sdbLogT3 == old(sdbLogT3) && sdbLogData == old(sdbLogData))
 
 //@ func (e bech32CustomPrecompiledContractRoConsensusAddrPrefix) Execute(caller corevm.ContractRef, contractAddr common.Address, input []byte, env cpcExecutorEnv) (ret []byte, err error)
+//@   deterministic[C01.no_node_local_source]
 //@   modifies nothing
 //@   ensures[C12.ro_world_unchanged] (bankBal == old(bankBal) && bankSupply == old(bankSupply) && authVersion == old(authVersion) && evlog == old(evlog) && kvHas == old(kvHas) && kvVal == old(kvVal) && acctSeq == old(acctSeq) && acctExists == old(acctExists) && stakingVersion == old(stakingVersion) && distVersion == old(distVersion) && sdbLogCount == old(sdbLogCount) && sdbLogAddr == old(sdbLogAddr) && sdbLogNTopics == old(sdbLogNTopics) && sdbLogT0 == old(sdbLogT0) && sdbLogT1 == old(sdbLogT1) && sdbLogT2 == old(sdbLogT2) && sdbLogT3 == old(sdbLogT3) && sdbLogData == old(sdbLogData))
 
 //@ func (e bech32CustomPrecompiledContractRoAccountPubPrefix) Execute(caller corevm.ContractRef, contractAddr common.Address, input []byte, env cpcExecutorEnv) (ret []byte, err error)
+//@   deterministic[C01.no_node_local_source]
 //@   modifies nothing
 //@   ensures[C12.ro_world_unchanged] (bankBal == old(bankBal) && bankSupply == old(bankSupply) && authVersion == old(authVersion) && evlog == old(evlog) && kvHas == old(kvHas) && kvVal == old(kvVal) && acctSeq == old(acctSeq) && acctExists == old(acctExists) && stakingVersion == old(stakingVersion) && distVersion == old(distVersion) && sdbLogCount == old(sdbLogCount) && sdbLogAddr == old(sdbLogAddr) && sdbLogNTopics == old(sdbLogNTopics) && sdbLogT0 == old(sdbLogT0) && sdbLogT1 == old(sdbLogT1) && sdbLogT2 == old(sdbLogT2) && sdbLogT3 == old(sdbLogT3) && sdbLogData == old(sdbLogData))
 
 //@ func (e bech32CustomPrecompiledContractRoValidatorPubPrefix) Execute(caller corevm.ContractRef, contractAddr common.Address, input []byte, env cpcExecutorEnv) (ret []byte, err error)
+//@   deterministic[C01.no_node_local_source]
 //@   modifies nothing
 //@   ensures[C12.ro_world_unchanged] (bankBal == old(bankBal) && bankSupply == old(bankSupply) && authVersion == old(authVersion) && evlog == old(evlog) && kvHas == old(kvHas) && kvVal == old(kvVal) && acctSeq == old(acctSeq) && acctExists == old(acctExists) && stakingVersion == old(stakingVersion) && distVersion == old(distVersion) && sdbLogCount == old(sdbLogCount) && sdbLogAddr == old(sdbLogAddr) && sdbLogNTopics == old(sdbLogNTopics) && sdbLogT0 == old(sdbLogT0) && sdbLogT1 == old(sdbLogT1) && sdbLogT2 == old(sdbLogT2) && sdbLogT3 == old(sdbLogT3) && sdbLogData == old(sdbLogData))
 
 //@ func (e bech32CustomPrecompiledContractRoConsensusPubPrefix) Execute(caller corevm.ContractRef, contractAddr common.Address, input []byte, env cpcExecutorEnv) (ret []byte, err error)
+//@   deterministic[C01.no_node_local_source]
 //@   modifies nothing
 //@   ensures[C12.ro_world_unchanged] (bankBal == old(bankBal) && bankSupply == old(bankSupply) && authVersion == old(authVersion) && evlog == old(evlog) && kvHas == old(kvHas) && kvVal == old(kvVal) && acctSeq == old(acctSeq) && acctExists == old(acctExists) && stakingVersion == old(stakingVersion) && distVersion == old(distVersion) && sdbLogCount == old(sdbLogCount) && sdbLogAddr == old(sdbLogAddr) && sdbLogNTopics == old(sdbLogNTopics) && sdbLogT0 == old(sdbLogT0) && sdbLogT1 == old(sdbLogT1) && sdbLogT2 == old(sdbLogT2) && sdbLogT3 == old(sdbLogT3) && sdbLogData == old(sdbLogData))
 
@@ -1141,6 +1306,7 @@ package keeper
 //@   panics any
 
 //@ func (e stakingCustomPrecompiledContractRwDelegate) delegate(ctx sdk.Context, delegator sdk.AccAddress, validator sdk.ValAddress, amount sdk.Coin) (err error)
+//@   deterministic[C01.no_node_local_source]
 //@   requires e.contract != nil
 //@   modifies nativeCalls, nativeKind, nativeDelegator, nativeValidator, nativeValidatorSrc, nativeDenom, nativeAmount, nativeLayer, nativeSigChecks, stakingVersion[layer(ctx)], distVersion[layer(ctx)], bankBal[layer(ctx)], authVersion[layer(ctx)], evlog[payload(ctx.EventManager())]
 //@   ensures[C11.delegate_at_most_one_message] (nativeCalls[0] == old(nativeCalls[0]) || nativeCalls[0] == old(nativeCalls[0]) + 1) && ((forall n int :: n < old(nativeCalls[0]) ==> nativeKind[n] == old(nativeKind[n])) && (forall n int :: n < old(nativeCalls[0]) ==> nativeDelegator[n] == old(nativeDelegator[n])) && (forall n int :: n < old(nativeCalls[0]) ==> nativeValidator[n] == old(nativeValidator[n])) && (forall n int :: n < old(nativeCalls[0]) ==> nativeValidatorSrc[n] == old(nativeValidatorSrc[n])) && (forall n int :: n < old(nativeCalls[0]) ==> nativeDenom[n] == old(nativeDenom[n])) && (forall n int :: n < old(nativeCalls[0]) ==> nativeAmount[n] == old(nativeAmount[n])) && (forall n int :: n < old(nativeCalls[0]) ==> nativeLayer[n] == old(nativeLayer[n])) && (forall n int :: n < old(nativeCalls[0]) ==> nativeSigChecks[n] == old(nativeSigChecks[n])))
@@ -1148,6 +1314,7 @@ package keeper
 //@   ensures[C11.delegate_message] nativeCalls[0] == old(nativeCalls[0]) + 1 ==> (nativeKind[old(nativeCalls[0])] == 1 && ((0 < len(delegator) && len(delegator) <= 255) ==> bech32Bytes(nativeDelegator[old(nativeCalls[0])]) == bytes(delegator)) && nativeValidator[old(nativeCalls[0])] == codecStr(2, bytes(validator)) && nativeDenom[old(nativeCalls[0])] == amount.Denom && nativeAmount[old(nativeCalls[0])] == iv(amount.Amount) && nativeLayer[old(nativeCalls[0])] == layer(ctx) && nativeSigChecks[old(nativeCalls[0])] == sigChecks[0])
 
 //@ func (e stakingCustomPrecompiledContractRwUnDelegate) undelegate(ctx sdk.Context, delegator sdk.AccAddress, validator sdk.ValAddress, amount sdk.Coin) (err error)
+//@   deterministic[C01.no_node_local_source]
 //@   requires e.contract != nil
 //@   modifies nativeCalls, nativeKind, nativeDelegator, nativeValidator, nativeValidatorSrc, nativeDenom, nativeAmount, nativeLayer, nativeSigChecks, stakingVersion[layer(ctx)], distVersion[layer(ctx)], bankBal[layer(ctx)], authVersion[layer(ctx)], evlog[payload(ctx.EventManager())]
 //@   ensures[C11.undelegate_at_most_one_message] (nativeCalls[0] == old(nativeCalls[0]) || nativeCalls[0] == old(nativeCalls[0]) + 1) && ((forall n int :: n < old(nativeCalls[0]) ==> nativeKind[n] == old(nativeKind[n])) && (forall n int :: n < old(nativeCalls[0]) ==> nativeDelegator[n] == old(nativeDelegator[n])) && (forall n int :: n < old(nativeCalls[0]) ==> nativeValidator[n] == old(nativeValidator[n])) && (forall n int :: n < old(nativeCalls[0]) ==> nativeValidatorSrc[n] == old(nativeValidatorSrc[n])) && (forall n int :: n < old(nativeCalls[0]) ==> nativeDenom[n] == old(nativeDenom[n])) && (forall n int :: n < old(nativeCalls[0]) ==> nativeAmount[n] == old(nativeAmount[n])) && (forall n int :: n < old(nativeCalls[0]) ==> nativeLayer[n] == old(nativeLayer[n])) && (forall n int :: n < old(nativeCalls[0]) ==> nativeSigChecks[n] == old(nativeSigChecks[n])))
@@ -1155,6 +1322,7 @@ package keeper
 //@   ensures[C11.undelegate_message] nativeCalls[0] == old(nativeCalls[0]) + 1 ==> (nativeKind[old(nativeCalls[0])] == 2 && ((0 < len(delegator) && len(delegator) <= 255) ==> bech32Bytes(nativeDelegator[old(nativeCalls[0])]) == bytes(delegator)) && nativeValidator[old(nativeCalls[0])] == codecStr(2, bytes(validator)) && nativeDenom[old(nativeCalls[0])] == amount.Denom && nativeAmount[old(nativeCalls[0])] == iv(amount.Amount) && nativeLayer[old(nativeCalls[0])] == layer(ctx) && nativeSigChecks[old(nativeCalls[0])] == sigChecks[0])
 
 //@ func (e stakingCustomPrecompiledContractRwReDelegate) redelegate(ctx sdk.Context, delegator sdk.AccAddress, srcVal, dstVal sdk.ValAddress, amount sdk.Coin) (err error)
+//@   deterministic[C01.no_node_local_source]
 //@   requires e.contract != nil
 //@   modifies nativeCalls, nativeKind, nativeDelegator, nativeValidator, nativeValidatorSrc, nativeDenom, nativeAmount, nativeLayer, nativeSigChecks, stakingVersion[layer(ctx)], distVersion[layer(ctx)], bankBal[layer(ctx)], authVersion[layer(ctx)], evlog[payload(ctx.EventManager())]
 //@   ensures[C11.redelegate_at_most_one_message] (nativeCalls[0] == old(nativeCalls[0]) || nativeCalls[0] == old(nativeCalls[0]) + 1) && ((forall n int :: n < old(nativeCalls[0]) ==> nativeKind[n] == old(nativeKind[n])) && (forall n int :: n < old(nativeCalls[0]) ==> nativeDelegator[n] == old(nativeDelegator[n])) && (forall n int :: n < old(nativeCalls[0]) ==> nativeValidator[n] == old(nativeValidator[n])) && (forall n int :: n < old(nativeCalls[0]) ==> nativeValidatorSrc[n] == old(nativeValidatorSrc[n])) && (forall n int :: n < old(nativeCalls[0]) ==> nativeDenom[n] == old(nativeDenom[n])) && (forall n int :: n < old(nativeCalls[0]) ==> nativeAmount[n] == old(nativeAmount[n])) && (forall n int :: n < old(nativeCalls[0]) ==> nativeLayer[n] == old(nativeLayer[n])) && (forall n int :: n < old(nativeCalls[0]) ==> nativeSigChecks[n] == old(nativeSigChecks[n])))
@@ -1162,6 +1330,7 @@ package keeper
 //@   ensures[C11.redelegate_message] nativeCalls[0] == old(nativeCalls[0]) + 1 ==> (nativeKind[old(nativeCalls[0])] == 3 && ((0 < len(delegator) && len(delegator) <= 255) ==> bech32Bytes(nativeDelegator[old(nativeCalls[0])]) == bytes(delegator)) && nativeValidatorSrc[old(nativeCalls[0])] == codecStr(2, bytes(srcVal)) && nativeValidator[old(nativeCalls[0])] == codecStr(2, bytes(dstVal)) && nativeDenom[old(nativeCalls[0])] == amount.Denom && nativeAmount[old(nativeCalls[0])] == iv(amount.Amount) && nativeLayer[old(nativeCalls[0])] == layer(ctx) && nativeSigChecks[old(nativeCalls[0])] == sigChecks[0])
 
 //@ func (e stakingCustomPrecompiledContractRwWithdrawReward) withdrawRewardWithFormattedAddress(ctx sdk.Context, delegator, validator string) (err error)
+//@   deterministic[C01.no_node_local_source]
 //@   requires e.contract != nil
 //@   modifies nativeCalls, nativeKind, nativeDelegator, nativeValidator, nativeValidatorSrc, nativeDenom, nativeAmount, nativeLayer, nativeSigChecks, stakingVersion[layer(ctx)], distVersion[layer(ctx)], bankBal[layer(ctx)], authVersion[layer(ctx)], evlog[payload(ctx.EventManager())]
 //@   ensures[C11.withdrawRewardWithFormattedAddress_at_most_one_message] (nativeCalls[0] == old(nativeCalls[0]) || nativeCalls[0] == old(nativeCalls[0]) + 1) && ((forall n int :: n < old(nativeCalls[0]) ==> nativeKind[n] == old(nativeKind[n])) && (forall n int :: n < old(nativeCalls[0]) ==> nativeDelegator[n] == old(nativeDelegator[n])) && (forall n int :: n < old(nativeCalls[0]) ==> nativeValidator[n] == old(nativeValidator[n])) && (forall n int :: n < old(nativeCalls[0]) ==> nativeValidatorSrc[n] == old(nativeValidatorSrc[n])) && (forall n int :: n < old(nativeCalls[0]) ==> nativeDenom[n] == old(nativeDenom[n])) && (forall n int :: n < old(nativeCalls[0]) ==> nativeAmount[n] == old(nativeAmount[n])) && (forall n int :: n < old(nativeCalls[0]) ==> nativeLayer[n] == old(nativeLayer[n])) && (forall n int :: n < old(nativeCalls[0]) ==> nativeSigChecks[n] == old(nativeSigChecks[n])))
@@ -1169,6 +1338,7 @@ package keeper
 //@   ensures[C11.withdrawRewardWithFormattedAddress_message] nativeCalls[0] == old(nativeCalls[0]) + 1 ==> (nativeKind[old(nativeCalls[0])] == 4 && nativeDelegator[old(nativeCalls[0])] == delegator && nativeValidator[old(nativeCalls[0])] == validator && nativeLayer[old(nativeCalls[0])] == layer(ctx) && nativeSigChecks[old(nativeCalls[0])] == sigChecks[0])
 
 //@ func (e stakingCustomPrecompiledContractRwWithdrawReward) withdrawReward(ctx sdk.Context, delegator sdk.AccAddress, validator sdk.ValAddress) (err error)
+//@   deterministic[C01.no_node_local_source]
 //@   requires e.contract != nil
 //@   modifies nativeCalls, nativeKind, nativeDelegator, nativeValidator, nativeValidatorSrc, nativeDenom, nativeAmount, nativeLayer, nativeSigChecks, stakingVersion[layer(ctx)], distVersion[layer(ctx)], bankBal[layer(ctx)], authVersion[layer(ctx)], evlog[payload(ctx.EventManager())]
 //@   ensures[C11.withdrawReward_at_most_one_message] (nativeCalls[0] == old(nativeCalls[0]) || nativeCalls[0] == old(nativeCalls[0]) + 1) && ((forall n int :: n < old(nativeCalls[0]) ==> nativeKind[n] == old(nativeKind[n])) && (forall n int :: n < old(nativeCalls[0]) ==> nativeDelegator[n] == old(nativeDelegator[n])) && (forall n int :: n < old(nativeCalls[0]) ==> nativeValidator[n] == old(nativeValidator[n])) && (forall n int :: n < old(nativeCalls[0]) ==> nativeValidatorSrc[n] == old(nativeValidatorSrc[n])) && (forall n int :: n < old(nativeCalls[0]) ==> nativeDenom[n] == old(nativeDenom[n])) && (forall n int :: n < old(nativeCalls[0]) ==> nativeAmount[n] == old(nativeAmount[n])) && (forall n int :: n < old(nativeCalls[0]) ==> nativeLayer[n] == old(nativeLayer[n])) && (forall n int :: n < old(nativeCalls[0]) ==> nativeSigChecks[n] == old(nativeSigChecks[n])))
@@ -1176,6 +1346,7 @@ package keeper
 //@   ensures[C11.withdrawReward_message] nativeCalls[0] == old(nativeCalls[0]) + 1 ==> (nativeKind[old(nativeCalls[0])] == 4 && ((0 < len(delegator) && len(delegator) <= 255) ==> bech32Bytes(nativeDelegator[old(nativeCalls[0])]) == bytes(delegator)) && nativeValidator[old(nativeCalls[0])] == codecStr(2, bytes(validator)) && nativeLayer[old(nativeCalls[0])] == layer(ctx) && nativeSigChecks[old(nativeCalls[0])] == sigChecks[0])
 
 //@ func (e stakingCustomPrecompiledContractRwDelegate) Execute(caller corevm.ContractRef, contractAddr common.Address, input []byte, env cpcExecutorEnv) (ret []byte, err error)
+//@   deterministic[C01.no_node_local_source]
 //@   requires caller != nil && e.contract != nil && env.evm != nil && env.evm.StateDB != nil
 //@   modifies nativeCalls, nativeKind, nativeDelegator, nativeValidator, nativeValidatorSrc, nativeDenom, nativeAmount, nativeLayer, nativeSigChecks, stakingVersion[layer(env.ctx)], distVersion[layer(env.ctx)], bankBal[layer(env.ctx)], authVersion[layer(env.ctx)], evlog[payload(env.ctx.EventManager())], sdbLogCount[payload(env.evm.StateDB)], sdbLogAddr[payload(env.evm.StateDB)], sdbLogNTopics[payload(env.evm.StateDB)], sdbLogT0[payload(env.evm.StateDB)], sdbLogT1[payload(env.evm.StateDB)], sdbLogT2[payload(env.evm.StateDB)], sdbLogT3[payload(env.evm.StateDB)], sdbLogData[payload(env.evm.StateDB)], sdbOther[payload(env.evm.StateDB)]
 //@   ensures[C11.delegate_call_at_most_one_message] (nativeCalls[0] == old(nativeCalls[0]) || nativeCalls[0] == old(nativeCalls[0]) + 1) && ((forall n int :: n < old(nativeCalls[0]) ==> nativeKind[n] == old(nativeKind[n])) && (forall n int :: n < old(nativeCalls[0]) ==> nativeDelegator[n] == old(nativeDelegator[n])) && (forall n int :: n < old(nativeCalls[0]) ==> nativeValidator[n] == old(nativeValidator[n])) && (forall n int :: n < old(nativeCalls[0]) ==> nativeValidatorSrc[n] == old(nativeValidatorSrc[n])) && (forall n int :: n < old(nativeCalls[0]) ==> nativeDenom[n] == old(nativeDenom[n])) && (forall n int :: n < old(nativeCalls[0]) ==> nativeAmount[n] == old(nativeAmount[n])) && (forall n int :: n < old(nativeCalls[0]) ==> nativeLayer[n] == old(nativeLayer[n])) && (forall n int :: n < old(nativeCalls[0]) ==> nativeSigChecks[n] == old(nativeSigChecks[n])))
@@ -1185,6 +1356,7 @@ package keeper
 //@   ensures[C11.delegate_call_positive_amount_first] abiArgUint(bytes(input), 1) <= 0 ==> (err != nil && nativeCalls[0] == old(nativeCalls[0]))
 
 //@ func (e stakingCustomPrecompiledContractRwUnDelegate) Execute(caller corevm.ContractRef, contractAddr common.Address, input []byte, env cpcExecutorEnv) (ret []byte, err error)
+//@   deterministic[C01.no_node_local_source]
 //@   requires caller != nil && e.contract != nil && env.evm != nil && env.evm.StateDB != nil
 //@   modifies nativeCalls, nativeKind, nativeDelegator, nativeValidator, nativeValidatorSrc, nativeDenom, nativeAmount, nativeLayer, nativeSigChecks, stakingVersion[layer(env.ctx)], distVersion[layer(env.ctx)], bankBal[layer(env.ctx)], authVersion[layer(env.ctx)], evlog[payload(env.ctx.EventManager())], sdbLogCount[payload(env.evm.StateDB)], sdbLogAddr[payload(env.evm.StateDB)], sdbLogNTopics[payload(env.evm.StateDB)], sdbLogT0[payload(env.evm.StateDB)], sdbLogT1[payload(env.evm.StateDB)], sdbLogT2[payload(env.evm.StateDB)], sdbLogT3[payload(env.evm.StateDB)], sdbLogData[payload(env.evm.StateDB)], sdbOther[payload(env.evm.StateDB)]
 //@   ensures[C11.undelegate_call_at_most_one_message] (nativeCalls[0] == old(nativeCalls[0]) || nativeCalls[0] == old(nativeCalls[0]) + 1) && ((forall n int :: n < old(nativeCalls[0]) ==> nativeKind[n] == old(nativeKind[n])) && (forall n int :: n < old(nativeCalls[0]) ==> nativeDelegator[n] == old(nativeDelegator[n])) && (forall n int :: n < old(nativeCalls[0]) ==> nativeValidator[n] == old(nativeValidator[n])) && (forall n int :: n < old(nativeCalls[0]) ==> nativeValidatorSrc[n] == old(nativeValidatorSrc[n])) && (forall n int :: n < old(nativeCalls[0]) ==> nativeDenom[n] == old(nativeDenom[n])) && (forall n int :: n < old(nativeCalls[0]) ==> nativeAmount[n] == old(nativeAmount[n])) && (forall n int :: n < old(nativeCalls[0]) ==> nativeLayer[n] == old(nativeLayer[n])) && (forall n int :: n < old(nativeCalls[0]) ==> nativeSigChecks[n] == old(nativeSigChecks[n])))
@@ -1194,6 +1366,7 @@ package keeper
 //@   ensures[C11.undelegate_call_positive_amount_first] abiArgUint(bytes(input), 1) <= 0 ==> (err != nil && nativeCalls[0] == old(nativeCalls[0]))
 
 //@ func (e stakingCustomPrecompiledContractRwReDelegate) Execute(caller corevm.ContractRef, contractAddr common.Address, input []byte, env cpcExecutorEnv) (ret []byte, err error)
+//@   deterministic[C01.no_node_local_source]
 //@   requires caller != nil && e.contract != nil && env.evm != nil && env.evm.StateDB != nil
 //@   modifies nativeCalls, nativeKind, nativeDelegator, nativeValidator, nativeValidatorSrc, nativeDenom, nativeAmount, nativeLayer, nativeSigChecks, stakingVersion[layer(env.ctx)], distVersion[layer(env.ctx)], bankBal[layer(env.ctx)], authVersion[layer(env.ctx)], evlog[payload(env.ctx.EventManager())], sdbLogCount[payload(env.evm.StateDB)], sdbLogAddr[payload(env.evm.StateDB)], sdbLogNTopics[payload(env.evm.StateDB)], sdbLogT0[payload(env.evm.StateDB)], sdbLogT1[payload(env.evm.StateDB)], sdbLogT2[payload(env.evm.StateDB)], sdbLogT3[payload(env.evm.StateDB)], sdbLogData[payload(env.evm.StateDB)], sdbOther[payload(env.evm.StateDB)]
 //@   ensures[C11.redelegate_call_at_most_one_message] (nativeCalls[0] == old(nativeCalls[0]) || nativeCalls[0] == old(nativeCalls[0]) + 1) && ((forall n int :: n < old(nativeCalls[0]) ==> nativeKind[n] == old(nativeKind[n])) && (forall n int :: n < old(nativeCalls[0]) ==> nativeDelegator[n] == old(nativeDelegator[n])) && (forall n int :: n < old(nativeCalls[0]) ==> nativeValidator[n] == old(nativeValidator[n])) && (forall n int :: n < old(nativeCalls[0]) ==> nativeValidatorSrc[n] == old(nativeValidatorSrc[n])) && (forall n int :: n < old(nativeCalls[0]) ==> nativeDenom[n] == old(nativeDenom[n])) && (forall n int :: n < old(nativeCalls[0]) ==> nativeAmount[n] == old(nativeAmount[n])) && (forall n int :: n < old(nativeCalls[0]) ==> nativeLayer[n] == old(nativeLayer[n])) && (forall n int :: n < old(nativeCalls[0]) ==> nativeSigChecks[n] == old(nativeSigChecks[n])))
@@ -1203,6 +1376,7 @@ package keeper
 //@   ensures[C11.redelegate_call_positive_amount_first] abiArgUint(bytes(input), 2) <= 0 ==> (err != nil && nativeCalls[0] == old(nativeCalls[0]))
 
 //@ func (e stakingCustomPrecompiledContractRwWithdrawReward) Execute(caller corevm.ContractRef, contractAddr common.Address, input []byte, env cpcExecutorEnv) (ret []byte, err error)
+//@   deterministic[C01.no_node_local_source]
 //@   requires caller != nil && e.contract != nil && env.evm != nil && env.evm.StateDB != nil
 //@   modifies nativeCalls, nativeKind, nativeDelegator, nativeValidator, nativeValidatorSrc, nativeDenom, nativeAmount, nativeLayer, nativeSigChecks, stakingVersion[layer(env.ctx)], distVersion[layer(env.ctx)], bankBal[layer(env.ctx)], authVersion[layer(env.ctx)], evlog[payload(env.ctx.EventManager())], sdbLogCount[payload(env.evm.StateDB)], sdbLogAddr[payload(env.evm.StateDB)], sdbLogNTopics[payload(env.evm.StateDB)], sdbLogT0[payload(env.evm.StateDB)], sdbLogT1[payload(env.evm.StateDB)], sdbLogT2[payload(env.evm.StateDB)], sdbLogT3[payload(env.evm.StateDB)], sdbLogData[payload(env.evm.StateDB)], sdbOther[payload(env.evm.StateDB)]
 //@   ensures[C11.withdraw_reward_call_at_most_one_message] (nativeCalls[0] == old(nativeCalls[0]) || nativeCalls[0] == old(nativeCalls[0]) + 1) && ((forall n int :: n < old(nativeCalls[0]) ==> nativeKind[n] == old(nativeKind[n])) && (forall n int :: n < old(nativeCalls[0]) ==> nativeDelegator[n] == old(nativeDelegator[n])) && (forall n int :: n < old(nativeCalls[0]) ==> nativeValidator[n] == old(nativeValidator[n])) && (forall n int :: n < old(nativeCalls[0]) ==> nativeValidatorSrc[n] == old(nativeValidatorSrc[n])) && (forall n int :: n < old(nativeCalls[0]) ==> nativeDenom[n] == old(nativeDenom[n])) && (forall n int :: n < old(nativeCalls[0]) ==> nativeAmount[n] == old(nativeAmount[n])) && (forall n int :: n < old(nativeCalls[0]) ==> nativeLayer[n] == old(nativeLayer[n])) && (forall n int :: n < old(nativeCalls[0]) ==> nativeSigChecks[n] == old(nativeSigChecks[n])))
@@ -1214,6 +1388,7 @@ package keeper
 // validator. Every message it submits is a reward withdrawal of THAT delegator on the call's layer.
 // (Which validators are selected — those whose truncated bond-denom reward reaches the minimum — is not decided here.)
 //@ func (e stakingCustomPrecompiledContractRwWithdrawRewards) withdrawRewards(ctx sdk.Context, delegator sdk.AccAddress) (any bool, err error)
+//@   deterministic[C01.no_node_local_source]
 //@   requires e.withdrawReward.contract != nil
 //@   modifies nativeCalls, nativeKind, nativeDelegator, nativeValidator, nativeValidatorSrc, nativeDenom, nativeAmount, nativeLayer, nativeSigChecks, stakingVersion[layer(ctx)], distVersion[layer(ctx)], bankBal[layer(ctx)], authVersion[layer(ctx)], evlog[payload(ctx.EventManager())], e.withdrawReward.contract.cacheStakingMetadata
 //@   ensures[C11.withdraw_rewards_only_grows] nativeCalls[0] >= old(nativeCalls[0]) && ((forall n int :: n < old(nativeCalls[0]) ==> nativeKind[n] == old(nativeKind[n])) && (forall n int :: n < old(nativeCalls[0]) ==> nativeDelegator[n] == old(nativeDelegator[n])) && (forall n int :: n < old(nativeCalls[0]) ==> nativeValidator[n] == old(nativeValidator[n])) && (forall n int :: n < old(nativeCalls[0]) ==> nativeValidatorSrc[n] == old(nativeValidatorSrc[n])) && (forall n int :: n < old(nativeCalls[0]) ==> nativeDenom[n] == old(nativeDenom[n])) && (forall n int :: n < old(nativeCalls[0]) ==> nativeAmount[n] == old(nativeAmount[n])) && (forall n int :: n < old(nativeCalls[0]) ==> nativeLayer[n] == old(nativeLayer[n])) && (forall n int :: n < old(nativeCalls[0]) ==> nativeSigChecks[n] == old(nativeSigChecks[n])))
@@ -1224,6 +1399,7 @@ package keeper
 //@   invariant (forall n int :: (old(nativeCalls[0]) <= n && n < nativeCalls[0]) ==> (nativeKind[n] == 4 && nativeDelegator[n] == delegatorAddrStr && nativeLayer[n] == layer(ctx) && nativeSigChecks[n] == sigChecks[0]))
 
 //@ func (e stakingCustomPrecompiledContractRwWithdrawRewards) Execute(caller corevm.ContractRef, contractAddr common.Address, input []byte, env cpcExecutorEnv) (ret []byte, err error)
+//@   deterministic[C01.no_node_local_source]
 //@   requires caller != nil && e.withdrawReward.contract != nil && env.evm != nil && env.evm.StateDB != nil
 //@   modifies nativeCalls, nativeKind, nativeDelegator, nativeValidator, nativeValidatorSrc, nativeDenom, nativeAmount, nativeLayer, nativeSigChecks, stakingVersion[layer(env.ctx)], distVersion[layer(env.ctx)], bankBal[layer(env.ctx)], authVersion[layer(env.ctx)], evlog[payload(env.ctx.EventManager())], sdbLogCount[payload(env.evm.StateDB)], sdbLogAddr[payload(env.evm.StateDB)], sdbLogNTopics[payload(env.evm.StateDB)], sdbLogT0[payload(env.evm.StateDB)], sdbLogT1[payload(env.evm.StateDB)], sdbLogT2[payload(env.evm.StateDB)], sdbLogT3[payload(env.evm.StateDB)], sdbLogData[payload(env.evm.StateDB)], sdbOther[payload(env.evm.StateDB)], e.withdrawReward.contract.cacheStakingMetadata
 //@   ensures[C11.withdraw_rewards_call_only_grows] nativeCalls[0] >= old(nativeCalls[0]) && ((forall n int :: n < old(nativeCalls[0]) ==> nativeKind[n] == old(nativeKind[n])) && (forall n int :: n < old(nativeCalls[0]) ==> nativeDelegator[n] == old(nativeDelegator[n])) && (forall n int :: n < old(nativeCalls[0]) ==> nativeValidator[n] == old(nativeValidator[n])) && (forall n int :: n < old(nativeCalls[0]) ==> nativeValidatorSrc[n] == old(nativeValidatorSrc[n])) && (forall n int :: n < old(nativeCalls[0]) ==> nativeDenom[n] == old(nativeDenom[n])) && (forall n int :: n < old(nativeCalls[0]) ==> nativeAmount[n] == old(nativeAmount[n])) && (forall n int :: n < old(nativeCalls[0]) ==> nativeLayer[n] == old(nativeLayer[n])) && (forall n int :: n < old(nativeCalls[0]) ==> nativeSigChecks[n] == old(nativeSigChecks[n])))
@@ -1234,6 +1410,7 @@ package keeper
 // chain id of the EVM)) has succeeded BEFORE it; at most one native message; it carries the caller as delegator and a
 // positive amount.
 //@ func (e stakingCustomPrecompiledContractRwDelegateByActionMessage) Execute(caller corevm.ContractRef, contractAddr common.Address, input []byte, env cpcExecutorEnv) (ret []byte, err error)
+//@   deterministic[C01.no_node_local_source]
 //@   requires caller != nil && e.delegate.contract != nil && e.undelegate.contract != nil && e.redelegate.contract != nil && env.evm != nil && env.evm.StateDB != nil
 //@   modifies nativeCalls, nativeKind, nativeDelegator, nativeValidator, nativeValidatorSrc, nativeDenom, nativeAmount, nativeLayer, nativeSigChecks, sigChecks, sigCheckExpected, sigCheckMsg, sigCheckChain, sigCheckOk, stakingVersion[layer(env.ctx)], distVersion[layer(env.ctx)], bankBal[layer(env.ctx)], authVersion[layer(env.ctx)], evlog[payload(env.ctx.EventManager())], sdbLogCount[payload(env.evm.StateDB)], sdbLogAddr[payload(env.evm.StateDB)], sdbLogNTopics[payload(env.evm.StateDB)], sdbLogT0[payload(env.evm.StateDB)], sdbLogT1[payload(env.evm.StateDB)], sdbLogT2[payload(env.evm.StateDB)], sdbLogT3[payload(env.evm.StateDB)], sdbLogData[payload(env.evm.StateDB)], sdbOther[payload(env.evm.StateDB)]
 //@   ensures[C11.signed_staking_at_most_one_message] (nativeCalls[0] == old(nativeCalls[0]) || nativeCalls[0] == old(nativeCalls[0]) + 1) && ((forall n int :: n < old(nativeCalls[0]) ==> nativeKind[n] == old(nativeKind[n])) && (forall n int :: n < old(nativeCalls[0]) ==> nativeDelegator[n] == old(nativeDelegator[n])) && (forall n int :: n < old(nativeCalls[0]) ==> nativeValidator[n] == old(nativeValidator[n])) && (forall n int :: n < old(nativeCalls[0]) ==> nativeValidatorSrc[n] == old(nativeValidatorSrc[n])) && (forall n int :: n < old(nativeCalls[0]) ==> nativeDenom[n] == old(nativeDenom[n])) && (forall n int :: n < old(nativeCalls[0]) ==> nativeAmount[n] == old(nativeAmount[n])) && (forall n int :: n < old(nativeCalls[0]) ==> nativeLayer[n] == old(nativeLayer[n])) && (forall n int :: n < old(nativeCalls[0]) ==> nativeSigChecks[n] == old(nativeSigChecks[n])))
@@ -1243,6 +1420,7 @@ package keeper
 
 // withdrawRewardsByMessage(message, r, s, v): the signed withdrawal message; same rule.
 //@ func (e stakingCustomPrecompiledContractRwWithdrawRewardsByMessage) Execute(caller corevm.ContractRef, contractAddr common.Address, input []byte, env cpcExecutorEnv) (ret []byte, err error)
+//@   deterministic[C01.no_node_local_source]
 //@   requires caller != nil && e.withdrawReward.contract != nil && e.withdrawRewards.withdrawReward.contract != nil && env.evm != nil && env.evm.StateDB != nil
 //@   modifies nativeCalls, nativeKind, nativeDelegator, nativeValidator, nativeValidatorSrc, nativeDenom, nativeAmount, nativeLayer, nativeSigChecks, sigChecks, sigCheckExpected, sigCheckMsg, sigCheckChain, sigCheckOk, stakingVersion[layer(env.ctx)], distVersion[layer(env.ctx)], bankBal[layer(env.ctx)], authVersion[layer(env.ctx)], evlog[payload(env.ctx.EventManager())], sdbLogCount[payload(env.evm.StateDB)], sdbLogAddr[payload(env.evm.StateDB)], sdbLogNTopics[payload(env.evm.StateDB)], sdbLogT0[payload(env.evm.StateDB)], sdbLogT1[payload(env.evm.StateDB)], sdbLogT2[payload(env.evm.StateDB)], sdbLogT3[payload(env.evm.StateDB)], sdbLogData[payload(env.evm.StateDB)], sdbOther[payload(env.evm.StateDB)], e.withdrawRewards.withdrawReward.contract.cacheStakingMetadata
 //@   ensures[C11.signed_withdraw_only_grows] nativeCalls[0] >= old(nativeCalls[0]) && ((forall n int :: n < old(nativeCalls[0]) ==> nativeKind[n] == old(nativeKind[n])) && (forall n int :: n < old(nativeCalls[0]) ==> nativeDelegator[n] == old(nativeDelegator[n])) && (forall n int :: n < old(nativeCalls[0]) ==> nativeValidator[n] == old(nativeValidator[n])) && (forall n int :: n < old(nativeCalls[0]) ==> nativeValidatorSrc[n] == old(nativeValidatorSrc[n])) && (forall n int :: n < old(nativeCalls[0]) ==> nativeDenom[n] == old(nativeDenom[n])) && (forall n int :: n < old(nativeCalls[0]) ==> nativeAmount[n] == old(nativeAmount[n])) && (forall n int :: n < old(nativeCalls[0]) ==> nativeLayer[n] == old(nativeLayer[n])) && (forall n int :: n < old(nativeCalls[0]) ==> nativeSigChecks[n] == old(nativeSigChecks[n])))
